@@ -3,17 +3,22 @@
 package main
 
 // engine-conc (property C16): 2-8 client goroutines send commuting and conflicting reads and writes to the real engine
-// through a real httptest.Server (net/http serves every connection on its own goroutine).  The observed responses and the
+// through real httptest.Servers (net/http serves every connection on its own goroutine).  The observed responses and the
 // final resource state must be those of the real engine's OWN serial execution of some ordering of the same requests that
 // respects every client's program order and real time (a request answered before another was sent precedes it); the
 // ordering found is then also run through the Lean spec (it goes to the driver as an ordinary sequence).
+//
+// Two kinds of round.  "api": the API multiplexer alone.  "both": the API multiplexer AND the admin multiplexer of the same
+// RestServer are served, as RestServer.Start serves them (the shutdown waiter runs, and when it returns the API
+// multiplexer is shut down as RestServer.shutdown does first); clients mix API `GET /` (the admin multiplexer's status
+// handler, registered with the API multiplexer by RestServer.WithApiMux), admin `GET /status`, at most one admin
+// `POST /shutdown`, method errors and unknown paths on both, and ordinary API requests.
 //
 // Every round runs in a child process of the harness binary: an unsynchronised engine can die of a Go runtime fatal error
 // ("concurrent map writes"), which cannot be recovered in-process.  Under a -race build (thorough tier) the child's stderr
 // is searched for the race detector's report.
 //
-// engine-facts: the structural tie of the locking model — does rest.MuxImpl.ServeHTTP take a mutex before dispatch and
-// release it by defer, does any handler start a goroutine — extracted from the source with go/ast.
+// engine-facts: the structural tie of the locking model, extracted from the source with go/ast on every run (see there).
 
 import (
 	"bytes"
@@ -28,11 +33,16 @@ import (
 	"os"
 	"os/exec"
 	"path/filepath"
+	"regexp"
+	"runtime"
 	"sort"
 	"strconv"
 	"strings"
 	"sync"
 	"time"
+
+	"github.com/LindsayBradford/crem/internal/pkg/server/admin"
+	"github.com/LindsayBradford/crem/pkg/logging/loggers"
 )
 
 func init() {
@@ -41,30 +51,136 @@ func init() {
 	register("engine-facts", suiteEngineFacts)
 }
 
+// Timing rule of these suites: a verdict never rests on a short timeout.  Hangs are recognised structurally (a parked
+// goroutine, see goroutineBlocked); a timeout alone is a fallback with a margin of minutes for things that take
+// milliseconds, so that a busy machine cannot turn a slow but correct run into a violation.
+const (
+	concClientTimeout = 180 * time.Second // one HTTP exchange (normally < 50 ms)
+	concChildTimeout  = 600 * time.Second // one child process (normally 2-60 s)
+)
+
+// ---------------------------------------------------------------- the admin multiplexer (shared with engine-raw)
+
+// adminMux is the admin multiplexer of the engine's RestServer: the one whose StatusHandler WithApiMux registered with the
+// API multiplexer at "^/$" (through the accessor in harness/access/internal__pkg__server).
+func (e *eng) adminMux() *admin.Mux { return e.rs.VerifAdminMux() }
+
+var statusWordRe = regexp.MustCompile(`^[A-Z_]+$`)
+
+// statusWordOf is the `Status` value of a status document ("" if the body is not one).
+func statusWordOf(body []byte) string {
+	var m map[string]interface{}
+	if json.Unmarshal(body, &m) != nil || len(m) != 4 {
+		return ""
+	}
+	for _, k := range []string{"ServiceName", "Version", "Status", "Time"} {
+		if _, isStr := m[k].(string); !isStr {
+			return ""
+		}
+	}
+	return m["Status"].(string)
+}
+
+// canonAdmin renders an answer of the admin multiplexer as the token the model prints (`stepAdmin`): errors as canonResp
+// does, a status document as `200 status:<Status word>`.
+func canonAdmin(q rawReq, resp engResp) canonOut {
+	if resp.panicked != "" || resp.status != 200 {
+		return canonResp(canonCtx{}, q, resp)
+	}
+	var out canonOut
+	ct := ctClass(resp.header)
+	if ct == "json" && !json.Valid(resp.body) {
+		out.notes = append(out.notes, "declared-json-invalid")
+	}
+	w := statusWordOf(resp.body)
+	switch {
+	case ct != "json":
+		out.tok = "200 ctype!" + ct
+	case w == "":
+		out.tok = "200 status!"
+	case !statusWordRe.MatchString(w):
+		out.tok = "200 status!" + escTok(w)
+	default:
+		out.tok = "200 status:" + w
+	}
+	return out
+}
+
+// goroutineName is the number of the calling goroutine as the runtime prints it in stack dumps (goroutineID: suite_multirun_child.go).
+func goroutineName() string { return strconv.FormatUint(goroutineID(), 10) }
+
+// goroutinesBlocked looks at the runtime's dump of all goroutines: how many — of goroutine `id` alone, or of all if id is
+// "" — are in wait state `state` (e.g. "chan send") with `frame` on their stack?  A structural observation, not a timing:
+// such a goroutine is parked.
+func goroutinesBlocked(id, state, frame string) int {
+	buf := make([]byte, 1<<20)
+	for {
+		n := runtime.Stack(buf, true)
+		if n < len(buf) {
+			buf = buf[:n]
+			break
+		}
+		buf = make([]byte, 2*len(buf))
+	}
+	count := 0
+	for _, g := range strings.Split(string(buf), "\n\n") {
+		head, _, _ := strings.Cut(g, "\n")
+		if !strings.HasPrefix(head, "goroutine ") || !strings.Contains(head, "["+state) {
+			continue
+		}
+		if id != "" && !strings.HasPrefix(head, "goroutine "+id+" ") {
+			continue
+		}
+		if strings.Contains(g, frame) {
+			count++
+		}
+	}
+	return count
+}
+
+func goroutineBlocked(id, state, frame string) bool { return goroutinesBlocked(id, state, frame) > 0 }
+
+const signalListenerFrame = "server/admin.(*Mux).WaitForShutdownSignal.func1"
+const shutdownHandlerFrame = "server/admin.(*Mux).shutdownHandler"
+
 // ---------------------------------------------------------------- one concurrent round (child side)
 
 type concReq struct {
 	Client int    `json:"client"`
 	Seq    int    `json:"seq"`
+	Mux    string `json:"mux,omitempty"` // "" = the API multiplexer, "admin" = the admin multiplexer
 	Method string `json:"method"`
 	Path   string `json:"path"`
 	Ctype  string `json:"ctype"`
 	Body   string `json:"body"`
 	Start  int64  `json:"start"` // monotonic ns
 	End    int64  `json:"end"`
-	Tok    string `json:"tok"` // canonical response token
+	Tok    string `json:"tok"`            // canonical response token
+	Word   string `json:"word,omitempty"` // Status word of a status document answered with 200
 	Err    string `json:"err,omitempty"`
 }
 
 type concRound struct {
+	Kind     string    `json:"kind"`     // api | both | held
 	Scenario string    `json:"scenario"` // scenario text posted during set-up
+	DsRel    string    `json:"ds_rel"`   // … and its data set and limit: the tokens of the round are canonicalised against this scenario
+	LimVar   int       `json:"lim_var"`
+	Limit    float64   `json:"limit"`
+	Note     string    `json:"note,omitempty"`
 	Setup    []concReq `json:"setup"`
 	Reqs     []concReq `json:"reqs"`
-	Final    []string  `json:"final"` // read-back after the round
-	Order    []int     `json:"order"` // serial order found (indices into Reqs); nil if none
+	Final    []string  `json:"final"`     // read-back after the round
+	FinalAdm string    `json:"final_adm"` // both: admin GET /status after the round
+	Order    []int     `json:"order"`     // serial order found (indices into Reqs); nil if none
 	Explored int       `json:"explored"`
-	Verdict  string    `json:"verdict"` // serialisable | not-serialisable | search-exhausted | setup-failed
+	Verdict  string    `json:"verdict"` // serialisable | not-serialisable | search-exhausted | setup-failed | handler-blocked | handlers-overlap
 	Detail   string    `json:"detail,omitempty"`
+}
+
+// a client's request before it is sent
+type concPlan struct {
+	mux string
+	q   rawReq
 }
 
 func (q concReq) raw() rawReq {
@@ -91,86 +207,222 @@ func httpDo(client *http.Client, base string, q rawReq) (engResp, error) {
 	return engResp{status: resp.StatusCode, header: resp.Header, body: b}, nil
 }
 
-// concPrograms builds the clients' programs: reads and writes over a few planning units, so that some pairs commute
-// (different planning units, reads) and some conflict (same planning unit, whole-set writes, attribute patches).
-func concPrograms(r *Rng, sc *engScenario, nClients int, labels []string) [][]rawReq {
-	pusWithActs := []uint64{}
+func concScenarioBody(name string, sc *engScenario) []byte {
+	lim := map[string]float64{}
+	if sc.limVar >= 0 {
+		lim[varMaxKey[sc.limVar]] = sc.limit
+	}
+	return []byte(scenarioText(name, "CatchmentModel", sc.dsRel, lim, ""))
+}
+
+func concSolutionsBody(r *Rng, sc *engScenario, nSol int) ([]byte, []string) {
+	rows := make([][]bool, nSol)
+	var labels []string
+	for k := range rows {
+		rows[k] = make([]bool, sc.n())
+		for i := range rows[k] {
+			rows[k][i] = r.Chance(0.5)
+		}
+		labels = append(labels, fmt.Sprintf("%d-of-%d", k+1, nSol))
+	}
+	return validSolutionsCsv(sc, rows, -1), labels
+}
+
+// concRequest draws one ordinary API request: reads and writes over a few planning units, so that some pairs commute
+// (different planning units, reads) and some conflict (same planning unit, whole-set writes, attribute patches, a
+// re-posted scenario, a replaced solution summary), plus requests that fail (400 / 404 / 405 / 415).
+func concRequest(r *Rng, sc *engScenario, hot []uint64, labels []string) rawReq {
+	if len(labels) > 0 && r.Chance(0.25) {
+		// a pooled solution is built on its first GET: reads that write shared engine state
+		return rawReq{method: "GET", path: pSolutions + "/" + labels[r.Intn(len(labels))]}
+	}
+	switch d := r.Intn(100); {
+	case d < 26: // per-subcatchment write on a hot planning unit
+		pu := hot[r.Intn(len(hot))]
+		var items []string
+		for _, t := range sc.typesAt(pu) {
+			if r.Chance(0.7) {
+				items = append(items, fmt.Sprintf(`{"Name":%q,"Value":%q}`, t, []string{"Active", "Inactive"}[r.Intn(2)]))
+			}
+		}
+		return rawReq{method: "PUT", path: pSubPrefix + strconv.FormatUint(pu, 10), ctype: ctJson, body: []byte("[" + strings.Join(items, ",") + "]")}
+	case d < 36: // whole-set write by encoding (under a limit this flips ValidAgainstScenario)
+		bits := make([]bool, sc.n())
+		p := []float64{0.1, 0.5, 0.9}[r.Intn(3)]
+		for i := range bits {
+			bits[i] = r.Chance(p)
+		}
+		return rawReq{method: "PATCH", path: pModel, ctype: ctJson, body: []byte(fmt.Sprintf(`[{"Name":"Encoding","Value":%q}]`, engEncode(bits)))}
+	case d < 42: // attribute patch (conflicts with other patches of the same name)
+		return rawReq{method: "PATCH", path: pModel, ctype: ctJson, body: []byte(fmt.Sprintf(`[{"Name":"Owner","Value":%d}]`, r.Intn(3)))}
+	case d < 49: // table write over two planning units
+		var sb strings.Builder
+		sb.WriteString("SubCatchment,GullyRestoration,HillSlopeRestoration,RiverBankRestoration,WetlandsEstablishment\n")
+		for k := 0; k < 2; k++ {
+			fmt.Fprintf(&sb, "%d,%d,%d,%d,%d\n", hot[r.Intn(len(hot))], r.Intn(2), r.Intn(2), r.Intn(2), r.Intn(2))
+		}
+		return rawReq{method: "PUT", path: pActive, ctype: ctCsv, body: []byte(sb.String())}
+	case d < 52: // a write that fails (400)
+		return rawReq{method: "PATCH", path: pModel, ctype: ctJson, body: []byte(`[{"Name":"Encoding","Value":"zz"}]`)}
+	case d < 57: // the scenario is posted again under another name: the model starts over
+		return rawReq{method: "POST", path: pScenario, ctype: ctToml, body: concScenarioBody(fmt.Sprintf("conc-%d", r.Intn(3)), sc)}
+	case d < 62: // the solution summary is replaced: other labels, an emptied pool
+		body, _ := concSolutionsBody(r, sc, 2+r.Intn(3))
+		return rawReq{method: "POST", path: pSolutions, ctype: ctCsv, body: body}
+	case d < 66:
+		return rawReq{method: "GET", path: pScenario}
+	case d < 70:
+		return rawReq{method: "GET", path: pSolutions}
+	case d < 74:
+		return rawReq{method: "GET", path: pApplicable}
+	case d < 79: // client errors: unknown path, wrong method, wrong content type
+		return []rawReq{
+			{method: "GET", path: "/api/v1/nowhere"},
+			{method: "GET", path: "/api/v2/model"},
+			{method: "DELETE", path: pModel},
+			{method: "POST", path: pActive, ctype: ctCsv, body: []byte("SubCatchment\n")},
+			{method: "PUT", path: pActive, ctype: ctJson, body: []byte("[]")},
+			{method: "PATCH", path: pModel, ctype: ctCsv, body: []byte("a,b\n")},
+			{method: "PUT", path: pSubPrefix + "999999", ctype: ctJson, body: []byte("[]")},
+		}[r.Intn(7)]
+	case d < 88:
+		return rawReq{method: "GET", path: pModel}
+	case d < 94:
+		return rawReq{method: "GET", path: pActive}
+	default:
+		return rawReq{method: "GET", path: pSubPrefix + strconv.FormatUint(hot[r.Intn(len(hot))], 10)}
+	}
+}
+
+func concHot(sc *engScenario) []uint64 {
+	var hot []uint64
 	for _, pu := range sc.pus {
 		if len(sc.typesAt(pu)) > 0 {
-			pusWithActs = append(pusWithActs, pu)
+			hot = append(hot, pu)
 		}
 	}
-	hot := pusWithActs
 	if len(hot) > 3 {
 		hot = hot[:3]
 	}
-	progs := make([][]rawReq, nClients)
+	return hot
+}
+
+// the labels clients ask for: those of the summary posted during set-up and some that a summary posted DURING the round
+// may or may not define
+func concLabelPool(labels []string) []string {
+	if len(labels) == 0 {
+		return nil
+	}
+	return append(append([]string(nil), labels...), "1-of-2", "2-of-3", "4-of-4")
+}
+
+const concMaxEngineReqs = 11 // requests of one round that take part in the search for a serial order
+
+// concPrograms builds the clients' programs of an "api" round.
+func concPrograms(r *Rng, sc *engScenario, nClients int, labels []string) [][]concPlan {
+	hot := concHot(sc)
+	pool := concLabelPool(labels)
+	progs := make([][]concPlan, nClients)
 	total := 0
 	// burst: every client first asks for a different, not yet pooled solution (all of them arrive at the gate together)
 	burst := len(labels) > 0 && r.Chance(0.5)
 	for cl := 0; cl < nClients; cl++ {
-		if burst && total < 11 {
+		if burst && total < concMaxEngineReqs {
 			total++
-			progs[cl] = append(progs[cl], rawReq{method: "GET", path: pSolutions + "/" + labels[cl%len(labels)]})
+			progs[cl] = append(progs[cl], concPlan{q: rawReq{method: "GET", path: pSolutions + "/" + labels[cl%len(labels)]}})
 		}
 		n := 1 + r.Intn(2)
 		if nClients <= 3 {
 			n = 1 + r.Intn(3)
 		}
-		for j := 0; j < n && total < 11; j++ {
+		for j := 0; j < n && total < concMaxEngineReqs; j++ {
 			total++
-			var q rawReq
-			if len(labels) > 0 && r.Chance(0.3) {
-				// a pooled solution is built on its first GET: reads that write shared engine state
-				progs[cl] = append(progs[cl], rawReq{method: "GET", path: pSolutions + "/" + labels[r.Intn(len(labels))]})
-				continue
-			}
-			switch d := r.Intn(100); {
-			case d < 34: // per-subcatchment write on a hot planning unit
-				pu := hot[r.Intn(len(hot))]
-				types := sc.typesAt(pu)
-				var items []string
-				for _, t := range types {
-					if r.Chance(0.7) {
-						items = append(items, fmt.Sprintf(`{"Name":%q,"Value":%q}`, t, []string{"Active", "Inactive"}[r.Intn(2)]))
-					}
-				}
-				q = rawReq{method: "PUT", path: pSubPrefix + strconv.FormatUint(pu, 10), ctype: ctJson, body: []byte("[" + strings.Join(items, ",") + "]")}
-			case d < 46: // whole-set write by encoding
-				bits := make([]bool, sc.n())
-				for i := range bits {
-					bits[i] = r.Chance(0.5)
-				}
-				q = rawReq{method: "PATCH", path: pModel, ctype: ctJson, body: []byte(fmt.Sprintf(`[{"Name":"Encoding","Value":%q}]`, engEncode(bits)))}
-			case d < 54: // attribute patch (conflicts with other patches of the same name)
-				q = rawReq{method: "PATCH", path: pModel, ctype: ctJson, body: []byte(fmt.Sprintf(`[{"Name":"Owner","Value":%d}]`, r.Intn(3)))}
-			case d < 62: // table write over two planning units
-				var sb strings.Builder
-				sb.WriteString("SubCatchment,GullyRestoration,HillSlopeRestoration,RiverBankRestoration,WetlandsEstablishment\n")
-				for k := 0; k < 2; k++ {
-					fmt.Fprintf(&sb, "%d,%d,%d,%d,%d\n", hot[r.Intn(len(hot))], r.Intn(2), r.Intn(2), r.Intn(2), r.Intn(2))
-				}
-				q = rawReq{method: "PUT", path: pActive, ctype: ctCsv, body: []byte(sb.String())}
-			case d < 66: // a write that fails
-				q = rawReq{method: "PATCH", path: pModel, ctype: ctJson, body: []byte(`[{"Name":"Encoding","Value":"zz"}]`)}
-			case d < 80:
-				q = rawReq{method: "GET", path: pModel}
-			case d < 90:
-				q = rawReq{method: "GET", path: pActive}
-			default:
-				q = rawReq{method: "GET", path: pSubPrefix + strconv.FormatUint(hot[r.Intn(len(hot))], 10)}
-			}
-			progs[cl] = append(progs[cl], q)
+			progs[cl] = append(progs[cl], concPlan{q: concRequest(r, sc, hot, pool)})
 		}
 	}
 	return progs
 }
 
-// serialSearch looks for an ordering of the requests — respecting program order and real time — whose serial execution on
-// fresh engines reproduces every observed response and the observed final state.
-func serialSearch(cx canonCtx, setup []rawReq, reqs []concReq, final []string, readPaths []string, budget int) ([]int, int) {
+// bothPrograms builds the clients' programs of a "both" round: status reads through either multiplexer, method errors and
+// unknown paths on both, at most one shutdown request, and a few ordinary API requests.
+func bothPrograms(r *Rng, sc *engScenario, nClients int, labels []string) [][]concPlan {
+	hot := concHot(sc)
+	pool := concLabelPool(labels)
+	progs := make([][]concPlan, nClients)
+	engineReqs := 0
+	for cl := 0; cl < nClients; cl++ {
+		n := 1 + r.Intn(3)
+		for j := 0; j < n; j++ {
+			var p concPlan
+			switch d := r.Intn(100); {
+			case d < 27:
+				p = concPlan{q: rawReq{method: "GET", path: "/"}}
+			case d < 54:
+				p = concPlan{mux: "admin", q: rawReq{method: "GET", path: "/status"}}
+			case d < 66: // wrong methods
+				p = []concPlan{
+					{q: rawReq{method: "DELETE", path: "/"}},
+					{q: rawReq{method: "POST", path: "/", ctype: ctJson, body: []byte("{}")}},
+					{mux: "admin", q: rawReq{method: "PUT", path: "/status", ctype: ctJson, body: []byte("{}")}},
+					{mux: "admin", q: rawReq{method: "GET", path: "/shutdown"}},
+					{mux: "admin", q: rawReq{method: "DELETE", path: "/shutdown"}},
+					{mux: "admin", q: rawReq{method: "POST", path: "/status"}},
+				}[r.Intn(6)]
+			case d < 76: // paths the multiplexer asked does not serve
+				p = []concPlan{
+					{q: rawReq{method: "GET", path: "/status"}},
+					{q: rawReq{method: "POST", path: "/shutdown"}},
+					{mux: "admin", q: rawReq{method: "GET", path: "/"}},
+					{mux: "admin", q: rawReq{method: "GET", path: "/status/"}},
+					{mux: "admin", q: rawReq{method: "GET", path: pModel}},
+					{mux: "admin", q: rawReq{method: "POST", path: "/shutdown/now"}},
+				}[r.Intn(6)]
+			default:
+				if engineReqs >= 6 {
+					p = concPlan{q: rawReq{method: "GET", path: "/"}}
+				} else {
+					engineReqs++
+					p = concPlan{q: concRequest(r, sc, hot, pool)}
+				}
+			}
+			progs[cl] = append(progs[cl], p)
+		}
+	}
+	if r.Chance(0.7) {
+		// the one shutdown request of the server's life, somewhere in some client's program
+		cl := r.Intn(nClients)
+		at := r.Intn(len(progs[cl]) + 1)
+		p := concPlan{mux: "admin", q: rawReq{method: "POST", path: "/shutdown"}}
+		progs[cl] = append(progs[cl][:at], append([]concPlan{p}, progs[cl][at:]...)...)
+	}
+	return progs
+}
+
+// concClass says which shared object a request of a "both" round works on: the engine's resources (searched by serial
+// re-execution), the status document (one register: read / set to SHUTTING_DOWN), or nothing at all.
+func concClass(q concReq) string {
+	if q.Mux == "admin" {
+		switch {
+		case q.Path == "/status" && q.Method == "GET":
+			return "status-read"
+		case q.Path == "/shutdown" && q.Method == "POST":
+			return "status-write"
+		}
+		return "stateless"
+	}
+	if q.Path == "/" {
+		if q.Method == "GET" {
+			return "status-read"
+		}
+		return "stateless"
+	}
+	return "engine"
+}
+
+// mustPrecede[i][j]: request j must come before request i in any admissible serial order — same client earlier, or
+// answered before the other was sent.
+func mustPrecede(reqs []concReq) [][]bool {
 	n := len(reqs)
-	// must-precede: same client earlier, or answered before the other was sent
 	before := make([][]bool, n)
 	for i := range before {
 		before[i] = make([]bool, n)
@@ -186,6 +438,20 @@ func serialSearch(cx canonCtx, setup []rawReq, reqs []concReq, final []string, r
 			}
 		}
 	}
+	return before
+}
+
+// serialSearch looks for an ordering of the requests — respecting program order and real time — whose serial execution on
+// fresh engines reproduces every observed response and the observed final state.
+func serialSearch(cx canonCtx, setup []rawReq, reqs []concReq, final []string, readPaths []string, budget int) ([]int, int) {
+	n := len(reqs)
+	before := mustPrecede(reqs)
+	// candidates are tried in the order in which they were answered: a serial order is usually close to that one
+	cand := make([]int, n)
+	for i := range cand {
+		cand[i] = i
+	}
+	sort.SliceStable(cand, func(a, b int) bool { return reqs[cand[a]].End < reqs[cand[b]].End })
 	explored := 0
 	seen := map[string]bool{}
 	var order []int
@@ -223,7 +489,7 @@ func serialSearch(cx canonCtx, setup []rawReq, reqs []concReq, final []string, r
 		state := strings.Join(readAll(e), "\n")
 		if len(order) == n {
 			if state == strings.Join(final, "\n") {
-				found = append([]int(nil), order...)
+				found = append([]int{}, order...)
 				return true
 			}
 			return false
@@ -233,7 +499,7 @@ func serialSearch(cx canonCtx, setup []rawReq, reqs []concReq, final []string, r
 			return false
 		}
 		seen[key] = true
-		for i := 0; i < n; i++ {
+		for _, i := range cand {
 			if mask&(1<<uint(i)) != 0 {
 				continue
 			}
@@ -268,12 +534,709 @@ func serialSearch(cx canonCtx, setup []rawReq, reqs []concReq, final []string, r
 	return found, explored
 }
 
-func concReadPaths(sc *engScenario) []string {
-	ps := []string{pScenario, pModel, pActive}
+// statusObject judges the requests of a "both" round that work on the status document — one register that starts as
+// RUNNING, is read by admin GET /status and API GET /, and is set to SHUTTING_DOWN (and answered as such) by the round's
+// one POST /shutdown.  It returns what cannot be explained by any order that respects real time, and otherwise the
+// order constraints (pairs [earlier, later]) the reads impose.
+func statusObject(reqs []concReq, finalWord string) (edges [][2]int, problems []string) {
+	post := -1
+	var reads []int
+	for i, q := range reqs {
+		switch concClass(q) {
+		case "status-write":
+			if post >= 0 {
+				problems = append(problems, "harness: more than one shutdown request in a round")
+			}
+			post = i
+		case "status-read":
+			reads = append(reads, i)
+		}
+	}
+	name := func(i int) string {
+		q := reqs[i]
+		m := "api"
+		if q.Mux != "" {
+			m = q.Mux
+		}
+		return fmt.Sprintf("client %d #%d %s %s %s", q.Client, q.Seq, m, q.Method, q.Path)
+	}
+	if post >= 0 && reqs[post].Tok != "200 status:SHUTTING_DOWN" {
+		problems = append(problems, fmt.Sprintf("%s was answered %s, not with the status document it had just set to SHUTTING_DOWN", name(post), reqs[post].Tok))
+	}
+	var sawDown []int
+	for _, i := range reads {
+		q := reqs[i]
+		if !strings.HasPrefix(q.Tok, "200 ") {
+			problems = append(problems, fmt.Sprintf("%s was answered %s", name(i), q.Tok))
+			continue
+		}
+		switch q.Word {
+		case "RUNNING":
+			if post >= 0 {
+				if reqs[post].End < q.Start {
+					problems = append(problems, fmt.Sprintf("%s reported RUNNING although it was sent after the shutdown request had been answered (with SHUTTING_DOWN)", name(i)))
+				}
+				edges = append(edges, [2]int{i, post})
+			}
+		case "SHUTTING_DOWN":
+			if post < 0 {
+				problems = append(problems, fmt.Sprintf("%s reported SHUTTING_DOWN but no shutdown request was sent", name(i)))
+			} else {
+				if q.End < reqs[post].Start {
+					problems = append(problems, fmt.Sprintf("%s reported SHUTTING_DOWN and was answered before the shutdown request was sent", name(i)))
+				}
+				edges = append(edges, [2]int{post, i})
+			}
+			sawDown = append(sawDown, i)
+		default:
+			problems = append(problems, fmt.Sprintf("%s reported the status %q (the document: %s)", name(i), q.Word, q.Tok))
+		}
+	}
+	for _, s := range sawDown {
+		for _, i := range reads {
+			if reqs[i].Word == "RUNNING" && reqs[s].End < reqs[i].Start {
+				problems = append(problems, fmt.Sprintf("%s reported RUNNING although it was sent after %s had been answered with SHUTTING_DOWN", name(i), name(s)))
+			}
+		}
+	}
+	want := "RUNNING"
+	if post >= 0 && strings.HasPrefix(reqs[post].Tok, "200 ") {
+		want = "SHUTTING_DOWN"
+	}
+	if finalWord != "200 status:"+want {
+		problems = append(problems, fmt.Sprintf("after the round admin GET /status answers %s, expected status %s", finalWord, want))
+	}
+	return edges, problems
+}
+
+// mergeOrders extends the real-time / program order, the serial order found for the engine's requests and the order
+// the status reads impose to ONE total order (the objects are independent, so by the locality of linearisability such
+// an order exists whenever each part has one; a cycle would be reported).
+func mergeOrders(reqs []concReq, engineOrder []int, edges [][2]int) ([]int, bool) {
+	n := len(reqs)
+	before := mustPrecede(reqs)
+	for k := 1; k < len(engineOrder); k++ {
+		before[engineOrder[k]][engineOrder[k-1]] = true
+	}
+	for _, e := range edges {
+		before[e[1]][e[0]] = true
+	}
+	done := make([]bool, n)
+	var out []int
+	for len(out) < n {
+		best := -1
+		for i := 0; i < n; i++ {
+			if done[i] {
+				continue
+			}
+			ready := true
+			for j := 0; j < n; j++ {
+				if before[i][j] && !done[j] {
+					ready = false
+					break
+				}
+			}
+			if ready && (best < 0 || reqs[i].End < reqs[best].End) {
+				best = i
+			}
+		}
+		if best < 0 {
+			return nil, false
+		}
+		done[best] = true
+		out = append(out, best)
+	}
+	return out, true
+}
+
+func concReadPaths(sc *engScenario, labels []string) []string {
+	ps := []string{pScenario, pSolutions, pModel, pActive, pApplicable}
 	for _, pu := range sc.pus {
 		ps = append(ps, pSubPrefix+strconv.FormatUint(pu, 10))
 	}
+	// which labels the pool serves at the end (a GET fills the pool; it is the last thing done to an engine)
+	for _, l := range labels {
+		ps = append(ps, pSolutions+"/"+l)
+	}
 	return ps
+}
+
+func describeReqs(reqs []concReq, final []string) string {
+	var sb strings.Builder
+	for _, q := range reqs {
+		m := "api"
+		if q.Mux != "" {
+			m = q.Mux
+		}
+		fmt.Fprintf(&sb, "client %d #%d [%d..%d us] %s %s %s %s -> %s\n", q.Client, q.Seq, q.Start/1000, q.End/1000, m, q.Method, q.Path, clip(q.Body, 120), clip(q.Tok, 160))
+	}
+	fmt.Fprintf(&sb, "final: %s\n", clip(strings.Join(final, " | "), 1200))
+	return sb.String()
+}
+
+const concSearchBudget = 4000
+
+// concRunRound serves one engine to concurrent clients and judges what they saw.
+func concRunRound(r *Rng, sc *engScenario, fprintf bool, both bool) concRound {
+	cx := canonCtx{scen: sc, fprintf: fprintf}
+	scenBody := concScenarioBody("conc", sc)
+	setup := []rawReq{{method: "POST", path: pScenario, ctype: ctToml, body: scenBody}}
+	// a random starting set, so that writes have something to overwrite
+	start := make([]bool, sc.n())
+	for i := range start {
+		start[i] = r.Chance(0.4)
+	}
+	setup = append(setup, rawReq{method: "PATCH", path: pModel, ctype: ctJson, body: []byte(fmt.Sprintf(`[{"Name":"Encoding","Value":%q}]`, engEncode(start)))})
+	// every other round: a solution summary too, whose members the clients then ask for concurrently
+	var labels []string
+	if r.Chance(0.5) {
+		body, ls := concSolutionsBody(r, sc, 3+r.Intn(4))
+		labels = append(ls, "As-Is")
+		setup = append(setup, rawReq{method: "POST", path: pSolutions, ctype: ctCsv, body: body})
+	}
+
+	round := concRound{Kind: "api", Scenario: string(scenBody), DsRel: sc.dsRel, LimVar: sc.limVar, Limit: sc.limit}
+	e := newEng()
+	apiSrv := httptest.NewServer(e.mux)
+	servers := []*httptest.Server{apiSrv}
+	// Close waits for the requests in flight: not when one of them is known never to return
+	defer func() {
+		if round.Verdict != "handler-blocked" {
+			for _, s := range servers {
+				s.Close()
+			}
+		}
+	}()
+	base := map[string]string{"": apiSrv.URL}
+	waiterDone := make(chan struct{})
+	shutdownDone := make(chan struct{})
+	if both {
+		round.Kind = "both"
+		adm := e.adminMux()
+		// what RestServer.Start does around serving the two multiplexers: the status becomes RUNNING, the shutdown waiter
+		// waits, and once it returns RestServer.shutdown begins with the API multiplexer (the admin multiplexer's own
+		// Shutdown is not imitated: it marks the server DEAD after its http.Server has drained, which an httptest.Server
+		// does not take part in)
+		adm.SetStatus("RUNNING")
+		admSrv := httptest.NewServer(adm)
+		servers = append(servers, admSrv)
+		base["admin"] = admSrv.URL
+		go func() {
+			adm.WaitForShutdownSignal()
+			close(waiterDone)
+			e.mux.Shutdown()
+			close(shutdownDone)
+		}()
+	}
+	client := &http.Client{Timeout: concClientTimeout, Transport: &http.Transport{MaxIdleConnsPerHost: 16}}
+	for _, s := range setup {
+		resp, err := httpDo(client, apiSrv.URL, s)
+		round.Setup = append(round.Setup, concReq{Method: s.method, Path: s.path, Ctype: s.ctype, Body: string(s.body), Tok: canonResp(cx, s, resp).tok})
+		if err != nil || resp.status != 200 {
+			round.Verdict = "setup-failed"
+			return round
+		}
+	}
+	nClients := 2 + r.Intn(7)
+	var progs [][]concPlan
+	if both {
+		nClients = 3 + r.Intn(6)
+		progs = bothPrograms(r, sc, nClients, labels)
+	} else {
+		progs = concPrograms(r, sc, nClients, labels)
+	}
+	var mu sync.Mutex
+	var wg sync.WaitGroup
+	type rawAnswer struct {
+		q    rawReq
+		resp engResp
+		err  error
+	}
+	answers := map[[2]int]rawAnswer{} // canonicalised after the join: the reference model behind canonResp is not for concurrent use
+	t0 := time.Now()
+	gate := make(chan struct{})
+	for cl := range progs {
+		wg.Add(1)
+		go func(cl int) {
+			defer wg.Done()
+			hc := &http.Client{Timeout: concClientTimeout, Transport: &http.Transport{}}
+			<-gate
+			for seq, p := range progs[cl] {
+				st := time.Since(t0).Nanoseconds()
+				resp, err := httpDo(hc, base[p.mux], p.q)
+				en := time.Since(t0).Nanoseconds()
+				rec := concReq{Client: cl, Seq: seq, Mux: p.mux, Method: p.q.method, Path: p.q.path, Ctype: p.q.ctype, Body: string(p.q.body), Start: st, End: en}
+				mu.Lock()
+				answers[[2]int{cl, seq}] = rawAnswer{q: p.q, resp: resp, err: err}
+				round.Reqs = append(round.Reqs, rec)
+				mu.Unlock()
+			}
+		}(cl)
+	}
+	// a watchdog that looks at goroutines, not at the clock: a shutdown handler parked in its channel send after the
+	// waiter has gone can never return (and holds the admin multiplexer's request lock)
+	joined := make(chan struct{})
+	blocked := make(chan struct{})
+	go func() {
+		for {
+			select {
+			case <-joined:
+				return
+			case <-time.After(500 * time.Millisecond):
+			}
+			select {
+			case <-waiterDone:
+				if goroutineBlocked("", "chan send", shutdownHandlerFrame) {
+					close(blocked)
+					return
+				}
+			default:
+			}
+		}
+	}()
+	close(gate)
+	clientsDone := make(chan struct{})
+	go func() { wg.Wait(); close(clientsDone) }()
+	select {
+	case <-clientsDone:
+		close(joined)
+	case <-blocked:
+		round.Verdict = "handler-blocked"
+		round.Detail = "a goroutine is parked in a channel send inside admin.(*Mux).shutdownHandler after WaitForShutdownSignal has returned: that request is never answered and holds the admin multiplexer's request lock"
+		return round
+	}
+	select {
+	case <-waiterDone:
+		<-shutdownDone // the imitation of RestServer.shutdown has finished before the engine is looked at from here
+	default:
+	}
+	for i := range round.Reqs {
+		a := answers[[2]int{round.Reqs[i].Client, round.Reqs[i].Seq}]
+		switch {
+		case a.err != nil:
+			round.Reqs[i].Err = a.err.Error()
+			round.Reqs[i].Tok = "transport-error"
+		case round.Reqs[i].Mux == "admin":
+			round.Reqs[i].Tok = canonAdmin(a.q, a.resp).tok
+			round.Reqs[i].Word = statusWordOf(a.resp.body)
+		default:
+			round.Reqs[i].Tok = canonResp(cx, a.q, a.resp).tok
+			if a.q.path == "/" && a.resp.status == 200 {
+				round.Reqs[i].Word = statusWordOf(a.resp.body)
+			}
+		}
+	}
+	sort.SliceStable(round.Reqs, func(i, j int) bool {
+		if round.Reqs[i].Client != round.Reqs[j].Client {
+			return round.Reqs[i].Client < round.Reqs[j].Client
+		}
+		return round.Reqs[i].Seq < round.Reqs[j].Seq
+	})
+	paths := concReadPaths(sc, concLabelPool(labels))
+	for _, p := range paths {
+		q := rawReq{method: "GET", path: p}
+		resp, err := httpDo(client, apiSrv.URL, q)
+		if err != nil {
+			round.Final = append(round.Final, "transport-error")
+		} else {
+			round.Final = append(round.Final, canonResp(cx, q, resp).tok)
+		}
+	}
+	if both {
+		q := rawReq{method: "GET", path: "/status"}
+		if resp, err := httpDo(client, base["admin"], q); err != nil {
+			round.FinalAdm = "transport-error"
+		} else {
+			round.FinalAdm = canonAdmin(q, resp).tok
+		}
+	}
+
+	// the engine's requests: a search over the engine's own serial executions
+	var engIdx []int
+	var engReqs []concReq
+	for i, q := range round.Reqs {
+		if !both || concClass(q) == "engine" {
+			engIdx = append(engIdx, i)
+			engReqs = append(engReqs, q)
+		}
+	}
+	sub, explored := serialSearch(cx, setup, engReqs, round.Final, paths, concSearchBudget)
+	round.Explored = explored
+	switch {
+	case sub != nil:
+		order := make([]int, len(sub))
+		for k, i := range sub {
+			order[k] = engIdx[i]
+		}
+		round.Order, round.Verdict = order, "serialisable"
+	case explored >= concSearchBudget:
+		round.Verdict = "search-exhausted"
+		return round
+	default:
+		round.Verdict = "not-serialisable"
+		round.Detail = describeReqs(round.Reqs, round.Final)
+		return round
+	}
+	if both {
+		edges, problems := statusObject(round.Reqs, round.FinalAdm)
+		if len(problems) > 0 {
+			round.Order, round.Verdict = nil, "not-serialisable"
+			round.Detail = "the status document, read through both multiplexers: " + strings.Join(problems, "; ") + "\n" + describeReqs(round.Reqs, round.Final)
+			return round
+		}
+		merged, ok := mergeOrders(round.Reqs, round.Order, edges)
+		if !ok {
+			round.Order, round.Verdict = nil, "not-serialisable"
+			round.Detail = "the serial order of the engine's requests, the order the status reads impose and real time contradict each other\n" + describeReqs(round.Reqs, round.Final)
+			return round
+		}
+		round.Order = merged
+	}
+	return round
+}
+
+// ---------------------------------------------------------------- rounds with a request held inside the engine
+
+// holdProbe is the engine's logger in a "held" round: it tells the harness when a handler has logged a given message,
+// i.e. that the request is INSIDE its handler (nothing else is done with what is logged).
+type holdProbe struct {
+	loggers.NullLogger
+	mu       sync.Mutex
+	fragment string
+	fired    bool
+	seen     chan struct{}
+
+	// "held-read" rounds: the first handler that logs the message is kept at that statement until another handler logs
+	// it too (they are then inside the same piece of code at the same time) or the grace period has passed
+	hold     bool
+	holding  bool
+	heldText string
+	overlap  []string
+	met      chan struct{}
+}
+
+func (p *holdProbe) Info(message interface{}) {
+	text := fmt.Sprint(message)
+	p.mu.Lock()
+	if !strings.Contains(text, p.fragment) {
+		p.mu.Unlock()
+		return
+	}
+	if p.holding {
+		p.overlap = append(p.overlap, text)
+		if len(p.overlap) == 1 {
+			close(p.met)
+		}
+		p.mu.Unlock()
+		return
+	}
+	first := !p.fired
+	if first {
+		p.fired = true
+		close(p.seen)
+	}
+	if !first || !p.hold {
+		p.mu.Unlock()
+		return
+	}
+	p.holding, p.heldText = true, text
+	met := p.met
+	p.mu.Unlock()
+	select {
+	case <-met:
+	case <-time.After(concHoldGrace):
+	}
+	p.mu.Lock()
+	p.holding = false
+	p.mu.Unlock()
+}
+
+// concHoldGrace is how long a held request waits for the other clients before it completes.  It decides nothing: under
+// one request lock the others cannot be answered while the request is held, however long it waits; if they are slow
+// for another reason the round is an ordinary one.  Only responses that no serial order produces are a violation.
+const concHoldGrace = 500 * time.Millisecond
+
+// concInsideWait is how long the harness waits to see the held request inside its handler.  It decides no verdict either:
+// if the message is not seen the request is completed and the round is an ordinary one.
+const concInsideWait = 3 * time.Second
+
+// concRunHeld forces an overlap instead of hoping for one.  Client A sends PUT subcatchment/<pu> with a body it
+// completes only later: its handler has checked that the model has <pu> and waits for the body (inside the request
+// lock).  Client B then posts a scenario WITHOUT <pu>, client C reads the model.  Served one at a time B and C cannot be
+// answered before A completes, and A answers 200 (A before B) or 404 (B before A); an engine that lets B in while A is
+// held answers A with 400 "not supported", which no serial order gives.
+func concRunHeld(r *Rng, cat *engCatalogue, sc *engScenario, fprintf bool) concRound {
+	cx := canonCtx{scen: sc, fprintf: fprintf}
+	scenBody := concScenarioBody("conc", sc)
+	round := concRound{Kind: "held", Scenario: string(scenBody), DsRel: sc.dsRel, LimVar: sc.limVar, Limit: sc.limit}
+	hot := concHot(sc)
+	pu := hot[r.Intn(len(hot))]
+	// another data set, without that planning unit
+	var other *engScenario
+	for seed := uint64(2001); seed < 2040 && other == nil; seed++ {
+		rel := genDatasetRel(seed, cat.root)
+		if !strings.HasSuffix(rel, "/gModel.csv") {
+			continue // the parent regenerates a data set from its path: only this name is recognised (engCatalogue.ensureDataset)
+		}
+		s := cat.scenario(rel, -1, 0)
+		if s == nil {
+			continue
+		}
+		has := false
+		for _, p := range s.pus {
+			if p == pu {
+				has = true
+			}
+		}
+		if !has {
+			other = s
+		}
+	}
+	if other == nil {
+		round.Verdict = "setup-failed"
+		return round
+	}
+	setup := []rawReq{{method: "POST", path: pScenario, ctype: ctToml, body: scenBody}}
+	start := make([]bool, sc.n())
+	for i := range start {
+		start[i] = r.Chance(0.4)
+	}
+	setup = append(setup, rawReq{method: "PATCH", path: pModel, ctype: ctJson, body: []byte(fmt.Sprintf(`[{"Name":"Encoding","Value":%q}]`, engEncode(start)))})
+
+	e := newEng()
+	probe := &holdProbe{fragment: fmt.Sprintf("subcatchment [%d] state", pu), seen: make(chan struct{}), met: make(chan struct{})}
+	e.mux.SetLogger(probe)
+	srv := httptest.NewServer(e.mux)
+	defer srv.Close()
+	client := &http.Client{Timeout: concClientTimeout, Transport: &http.Transport{MaxIdleConnsPerHost: 16}}
+	for _, s := range setup {
+		resp, err := httpDo(client, srv.URL, s)
+		round.Setup = append(round.Setup, concReq{Method: s.method, Path: s.path, Ctype: s.ctype, Body: string(s.body), Tok: canonResp(cx, s, resp).tok})
+		if err != nil || resp.status != 200 {
+			round.Verdict = "setup-failed"
+			return round
+		}
+	}
+	probe.mu.Lock()
+	probe.fired = false // the set-up requests are not of interest
+	probe.seen = make(chan struct{})
+	probe.mu.Unlock()
+
+	types := sc.typesAt(pu)
+	aBody := []byte(fmt.Sprintf(`[{"Name":%q,"Value":%q}]`, types[r.Intn(len(types))], []string{"Active", "Inactive"}[r.Intn(2)]))
+	plans := []rawReq{
+		{method: "PUT", path: pSubPrefix + strconv.FormatUint(pu, 10), ctype: ctJson, body: aBody},
+		{method: "POST", path: pScenario, ctype: ctToml, body: concScenarioBody("other", other)},
+		{method: "GET", path: pModel},
+	}
+	type answer struct {
+		resp engResp
+		err  error
+	}
+	answers := make([]answer, len(plans))
+	recs := make([]concReq, len(plans))
+	done := make([]chan struct{}, len(plans))
+	t0 := time.Now()
+	send := func(i int, body io.Reader) {
+		done[i] = make(chan struct{})
+		q := plans[i]
+		recs[i] = concReq{Client: i, Seq: 0, Method: q.method, Path: q.path, Ctype: q.ctype, Body: string(q.body), Start: time.Since(t0).Nanoseconds()}
+		go func() {
+			defer close(done[i])
+			hc := &http.Client{Timeout: concClientTimeout, Transport: &http.Transport{}}
+			req, err := http.NewRequest(q.method, srv.URL+q.path, body)
+			if err == nil {
+				if q.ctype != "" {
+					req.Header.Set("Content-Type", q.ctype)
+				}
+				var resp *http.Response
+				if resp, err = hc.Do(req); err == nil {
+					var b []byte
+					b, err = io.ReadAll(resp.Body)
+					resp.Body.Close()
+					answers[i].resp = engResp{status: resp.StatusCode, header: resp.Header, body: b}
+				}
+			}
+			answers[i].err = err
+			recs[i].End = time.Since(t0).Nanoseconds()
+		}()
+	}
+	// A: the headers and the first bytes of the body go out, the rest is kept back
+	pr, pw := io.Pipe()
+	send(0, pr)
+	firstPart := make(chan struct{})
+	go func() {
+		pw.Write(aBody[:len(aBody)/2])
+		close(firstPart)
+	}()
+	inside := false
+	select {
+	case <-probe.seen:
+		inside = true
+	case <-done[0]:
+	case <-time.After(concInsideWait):
+		// e.g. a multiplexer that receives the whole body before it calls the handler: nothing to hold, an ordinary round
+	}
+	overtaken := false
+	if inside {
+		send(1, bytes.NewReader(plans[1].body))
+		send(2, nil)
+		select {
+		case <-done[1]:
+			overtaken = true // B was answered while A was inside its handler
+		case <-time.After(concHoldGrace):
+		}
+	}
+	<-firstPart
+	pw.Write(aBody[len(aBody)/2:])
+	pw.Close()
+	if !inside {
+		<-done[0]
+		send(1, bytes.NewReader(plans[1].body))
+		send(2, nil)
+	}
+	for i := range done {
+		<-done[i]
+	}
+	switch {
+	case !inside:
+		round.Note = "the held request was not seen inside its handler: an ordinary round"
+	case overtaken:
+		round.Note = "another request was answered while the held request was inside its handler"
+	default:
+		round.Note = "no other request was answered while the held request was inside its handler"
+	}
+	for i := range recs {
+		if answers[i].err != nil {
+			recs[i].Err, recs[i].Tok = answers[i].err.Error(), "transport-error"
+		} else {
+			recs[i].Tok = canonResp(cx, plans[i], answers[i].resp).tok
+		}
+	}
+	round.Reqs = recs
+	paths := concReadPaths(sc, nil)
+	for _, p := range paths {
+		q := rawReq{method: "GET", path: p}
+		if resp, err := httpDo(client, srv.URL, q); err != nil {
+			round.Final = append(round.Final, "transport-error")
+		} else {
+			round.Final = append(round.Final, canonResp(cx, q, resp).tok)
+		}
+	}
+	order, explored := serialSearch(cx, setup, round.Reqs, round.Final, paths, concSearchBudget)
+	round.Explored = explored
+	switch {
+	case order != nil:
+		round.Order, round.Verdict = order, "serialisable"
+	case explored >= concSearchBudget:
+		round.Verdict = "search-exhausted"
+	default:
+		round.Verdict = "not-serialisable"
+		round.Detail = round.Note + " (client 0 sent its body in two parts, the second after the others had been sent)\n" + describeReqs(round.Reqs, round.Final)
+	}
+	return round
+}
+
+// concRunHeldRead holds a READ inside the engine: the first GET of a solution label that is not yet pooled is kept at
+// its "Loading solution […] into solution pool" message — after it has looked the label up in the shared pool, before
+// it adds to it — while the other clients' first GETs of other labels (and a write) are under way.  Handlers that run
+// one at a time cannot reach that message while another handler is kept there; if one does, two requests are inside
+// the pool-filling code at once (engine:handlers-overlap), whatever their answers turn out to be.  The answers and the
+// final state are judged by the search for a serial order as in every round.
+func concRunHeldRead(r *Rng, sc *engScenario, fprintf bool) concRound {
+	cx := canonCtx{scen: sc, fprintf: fprintf}
+	scenBody := concScenarioBody("conc", sc)
+	round := concRound{Kind: "held-read", Scenario: string(scenBody), DsRel: sc.dsRel, LimVar: sc.limVar, Limit: sc.limit}
+	setup := []rawReq{{method: "POST", path: pScenario, ctype: ctToml, body: scenBody}}
+	body, labels := concSolutionsBody(r, sc, 3+r.Intn(3))
+	setup = append(setup, rawReq{method: "POST", path: pSolutions, ctype: ctCsv, body: body})
+	e := newEng()
+	probe := &holdProbe{fragment: "into solution pool", seen: make(chan struct{}), met: make(chan struct{}), hold: true}
+	e.mux.SetLogger(probe)
+	srv := httptest.NewServer(e.mux)
+	defer srv.Close()
+	client := &http.Client{Timeout: concClientTimeout, Transport: &http.Transport{MaxIdleConnsPerHost: 16}}
+	for _, s := range setup {
+		resp, err := httpDo(client, srv.URL, s)
+		round.Setup = append(round.Setup, concReq{Method: s.method, Path: s.path, Ctype: s.ctype, Body: string(s.body), Tok: canonResp(cx, s, resp).tok})
+		if err != nil || resp.status != 200 {
+			round.Verdict = "setup-failed"
+			return round
+		}
+	}
+	hot := concHot(sc)
+	var plans []rawReq
+	for k := 0; k < 3 && k < len(labels); k++ {
+		plans = append(plans, rawReq{method: "GET", path: pSolutions + "/" + labels[k]})
+	}
+	plans = append(plans, concRequest(r, sc, hot, nil))
+	type answer struct {
+		resp engResp
+		err  error
+	}
+	answers := make([]answer, len(plans))
+	recs := make([]concReq, len(plans))
+	var wg sync.WaitGroup
+	gate := make(chan struct{})
+	t0 := time.Now()
+	for i := range plans {
+		wg.Add(1)
+		go func(i int) {
+			defer wg.Done()
+			hc := &http.Client{Timeout: concClientTimeout, Transport: &http.Transport{}}
+			q := plans[i]
+			<-gate
+			st := time.Since(t0).Nanoseconds()
+			resp, err := httpDo(hc, srv.URL, q)
+			answers[i] = answer{resp, err}
+			recs[i] = concReq{Client: i, Method: q.method, Path: q.path, Ctype: q.ctype, Body: string(q.body), Start: st, End: time.Since(t0).Nanoseconds()}
+		}(i)
+	}
+	close(gate)
+	wg.Wait()
+	for i := range recs {
+		if answers[i].err != nil {
+			recs[i].Err, recs[i].Tok = answers[i].err.Error(), "transport-error"
+		} else {
+			recs[i].Tok = canonResp(cx, plans[i], answers[i].resp).tok
+		}
+	}
+	round.Reqs = recs
+	paths := concReadPaths(sc, concLabelPool(labels))
+	for _, p := range paths {
+		q := rawReq{method: "GET", path: p}
+		if resp, err := httpDo(client, srv.URL, q); err != nil {
+			round.Final = append(round.Final, "transport-error")
+		} else {
+			round.Final = append(round.Final, canonResp(cx, q, resp).tok)
+		}
+	}
+	probe.mu.Lock()
+	heldText, overlap := probe.heldText, append([]string(nil), probe.overlap...)
+	probe.mu.Unlock()
+	if len(overlap) > 0 {
+		round.Verdict = "handlers-overlap"
+		round.Detail = fmt.Sprintf("while one handler was kept at its log statement %q (between looking the label up in the engine's shared solution pool and adding to it), %d other handler(s) reached the same statement: %q — two requests were inside the code that reads and writes the pool at the same time\n%s",
+			heldText, len(overlap), overlap, describeReqs(round.Reqs, round.Final))
+		return round
+	}
+	if heldText == "" {
+		round.Note = "no handler logged that it loads a solution: an ordinary round"
+	} else {
+		round.Note = "no other handler reached the pool-filling code while one was kept inside it"
+	}
+	order, explored := serialSearch(cx, setup, round.Reqs, round.Final, paths, concSearchBudget)
+	round.Explored = explored
+	switch {
+	case order != nil:
+		round.Order, round.Verdict = order, "serialisable"
+	case explored >= concSearchBudget:
+		round.Verdict = "search-exhausted"
+	default:
+		round.Verdict = "not-serialisable"
+		round.Detail = describeReqs(round.Reqs, round.Final)
+	}
+	return round
 }
 
 // suiteEngineConcChild runs the rounds of one child process and writes rounds.json into its -out directory.
@@ -281,7 +1244,24 @@ func suiteEngineConcChild(c *Ctx) {
 	cat := newEngCatalogue(c.Out)
 	q, _ := calibrate(cat)
 	r := c.Rng.Fork()
-	scs := []*engScenario{cat.scenario("ds/valid/ValidModel.csv", -1, 0), cat.scenario("ds/testing/TestingModel.csv", -1, 0)}
+	var scs []*engScenario
+	add := func(s *engScenario) {
+		if s != nil {
+			scs = append(scs, s)
+		}
+	}
+	valid := cat.scenario("ds/valid/ValidModel.csv", -1, 0)
+	add(valid)
+	add(cat.scenario("ds/testing/TestingModel.csv", -1, 0))
+	if valid != nil {
+		// a limit inside the attainable range: whole-set writes flip ValidAgainstScenario / ValidationErrors (as engineScenarios)
+		all := make([]bool, valid.n())
+		for i := range all {
+			all[i] = true
+		}
+		hi := valid.totalsAt(all)
+		add(cat.scenario("ds/valid/ValidModel.csv", 4, float64(int(hi[4]*0.4))))
+	}
 	nRounds := 6
 	if len(c.Args) > 0 {
 		if v, err := strconv.Atoi(c.Args[0]); err == nil {
@@ -295,129 +1275,14 @@ func suiteEngineConcChild(c *Ctx) {
 	}
 	for ri := 0; ri < nRounds; ri++ {
 		sc := scs[r.Intn(len(scs))]
-		if sc == nil {
-			continue
-		}
-		cx := canonCtx{scen: sc, fprintf: q.fprintf}
-		scenBody := []byte(scenarioText("conc", "CatchmentModel", sc.dsRel, nil, ""))
-		setup := []rawReq{{method: "POST", path: pScenario, ctype: ctToml, body: scenBody}}
-		// a random starting set, so that writes have something to overwrite
-		start := make([]bool, sc.n())
-		for i := range start {
-			start[i] = r.Chance(0.4)
-		}
-		setup = append(setup, rawReq{method: "PATCH", path: pModel, ctype: ctJson, body: []byte(fmt.Sprintf(`[{"Name":"Encoding","Value":%q}]`, engEncode(start)))})
-
-		// every other round: a solution summary too, whose members the clients then ask for concurrently
-		var labels []string
-		if r.Chance(0.5) {
-			nSol := 3 + r.Intn(4)
-			rows := make([][]bool, nSol)
-			for k := range rows {
-				rows[k] = make([]bool, sc.n())
-				for i := range rows[k] {
-					rows[k][i] = r.Chance(0.5)
-				}
-				labels = append(labels, fmt.Sprintf("%d-of-%d", k+1, nSol))
-			}
-			labels = append(labels, "As-Is")
-			setup = append(setup, rawReq{method: "POST", path: pSolutions, ctype: ctCsv, body: validSolutionsCsv(sc, rows, -1)})
-		}
-
-		e := newEng()
-		srv := httptest.NewServer(e.mux)
-		round := concRound{Scenario: string(scenBody)}
-		client := &http.Client{Timeout: 20 * time.Second, Transport: &http.Transport{MaxIdleConnsPerHost: 16}}
-		okSetup := true
-		for _, s := range setup {
-			resp, err := httpDo(client, srv.URL, s)
-			if err != nil || resp.status != 200 {
-				okSetup = false
-			}
-			round.Setup = append(round.Setup, concReq{Method: s.method, Path: s.path, Ctype: s.ctype, Body: string(s.body), Tok: canonResp(cx, s, resp).tok})
-		}
-		if !okSetup {
-			round.Verdict = "setup-failed"
-			rounds = append(rounds, round)
-			srv.Close()
-			flush()
-			continue
-		}
-		nClients := 2 + r.Intn(7)
-		progs := concPrograms(r, sc, nClients, labels)
-		var mu sync.Mutex
-		var wg sync.WaitGroup
-		type rawAnswer struct {
-			q    rawReq
-			resp engResp
-			err  error
-		}
-		answers := map[[2]int]rawAnswer{} // canonicalised after the join: the reference model behind canonResp is not for concurrent use
-		t0 := time.Now()
-		gate := make(chan struct{})
-		for cl := range progs {
-			wg.Add(1)
-			go func(cl int) {
-				defer wg.Done()
-				hc := &http.Client{Timeout: 20 * time.Second, Transport: &http.Transport{}}
-				<-gate
-				for seq, q := range progs[cl] {
-					st := time.Since(t0).Nanoseconds()
-					resp, err := httpDo(hc, srv.URL, q)
-					en := time.Since(t0).Nanoseconds()
-					rec := concReq{Client: cl, Seq: seq, Method: q.method, Path: q.path, Ctype: q.ctype, Body: string(q.body), Start: st, End: en}
-					mu.Lock()
-					answers[[2]int{cl, seq}] = rawAnswer{q: q, resp: resp, err: err}
-					round.Reqs = append(round.Reqs, rec)
-					mu.Unlock()
-				}
-			}(cl)
-		}
-		close(gate)
-		wg.Wait()
-		for i := range round.Reqs {
-			a := answers[[2]int{round.Reqs[i].Client, round.Reqs[i].Seq}]
-			if a.err != nil {
-				round.Reqs[i].Err = a.err.Error()
-				round.Reqs[i].Tok = "transport-error"
-			} else {
-				round.Reqs[i].Tok = canonResp(cx, a.q, a.resp).tok
-			}
-		}
-		sort.SliceStable(round.Reqs, func(i, j int) bool {
-			if round.Reqs[i].Client != round.Reqs[j].Client {
-				return round.Reqs[i].Client < round.Reqs[j].Client
-			}
-			return round.Reqs[i].Seq < round.Reqs[j].Seq
-		})
-		paths := concReadPaths(sc)
-		for _, p := range paths {
-			q := rawReq{method: "GET", path: p}
-			resp, err := httpDo(client, srv.URL, q)
-			if err != nil {
-				round.Final = append(round.Final, "transport-error")
-			} else {
-				round.Final = append(round.Final, canonResp(cx, q, resp).tok)
-			}
-		}
-		srv.Close()
-		order, explored := serialSearch(cx, setup, round.Reqs, round.Final, paths, 4000)
-		round.Explored = explored
 		switch {
-		case order != nil:
-			round.Order, round.Verdict = order, "serialisable"
-		case explored >= 4000:
-			round.Verdict = "search-exhausted"
+		case ri == 2 && valid != nil:
+			rounds = append(rounds, concRunHeld(r, cat, valid, q.fprintf))
+		case ri == 4:
+			rounds = append(rounds, concRunHeldRead(r, sc, q.fprintf))
 		default:
-			round.Verdict = "not-serialisable"
-			var sb strings.Builder
-			for _, q := range round.Reqs {
-				fmt.Fprintf(&sb, "client %d #%d [%d..%d us] %s %s %s -> %s\n", q.Client, q.Seq, q.Start/1000, q.End/1000, q.Method, q.Path, clip(q.Body, 120), clip(q.Tok, 160))
-			}
-			fmt.Fprintf(&sb, "final: %s\n", clip(strings.Join(round.Final, " | "), 1200))
-			round.Detail = sb.String()
+			rounds = append(rounds, concRunRound(r, sc, q.fprintf, ri%5 == 1 || ri%5 == 3))
 		}
-		rounds = append(rounds, round)
 		flush()
 	}
 	flush()
@@ -440,13 +1305,14 @@ func suiteEngineConc(c *Ctx) {
 		self, _ = os.Executable()
 	}
 	nChildren := c.N(4, 8)
-	perChild := c.N(4, 6)
+	perChild := c.N(12, 15)
 	if raceEnabled {
 		// everything, the search for a serial order included, is several times slower under the race detector
-		nChildren, perChild = 3, 4
+		nChildren, perChild = 3, 8
 		c.extra["race_detector"] = "on"
 	}
 	run := newSeqRun(c, cat, q)
+	nRounds, nInconclusive := 0, 0
 	for ci := 0; ci < nChildren; ci++ {
 		dir := filepath.Join(c.Out, fmt.Sprintf("child-%d", ci))
 		cmd := exec.Command(self, "engine-conc-child", "-seed", strconv.FormatUint(c.Seed*1000+uint64(ci)+uint64(c.Shard)*100000, 10), "-tier", c.Tier, "-out", dir, strconv.Itoa(perChild))
@@ -460,9 +1326,9 @@ func suiteEngineConc(c *Ctx) {
 		var err error
 		select {
 		case err = <-done:
-		case <-time.After(240 * time.Second):
+		case <-time.After(concChildTimeout):
 			cmd.Process.Kill()
-			err = fmt.Errorf("timeout")
+			err = fmt.Errorf("timeout: no end after %v", concChildTimeout)
 		}
 		must(os.Chdir(c.Out))
 		es := stderr.String()
@@ -470,53 +1336,108 @@ func suiteEngineConc(c *Ctx) {
 			c.Fail("C16:no-data-race", "engine:data-race", "the race detector reports unsynchronised access to the engine's state while concurrent clients are served:\n"+clip(raceExcerpt(es), 1800), nil)
 			c.Stat("child: data race reported")
 		}
-		if err != nil {
+		var rounds []concRound
+		if b, rerr := os.ReadFile(filepath.Join(dir, "rounds.json")); rerr == nil {
+			json.Unmarshal(b, &rounds)
+		}
+		blockedRound := len(rounds) > 0 && rounds[len(rounds)-1].Verdict == "handler-blocked"
+		if err != nil && !blockedRound {
 			sig := "engine:concurrent-crash"
 			first := firstLineWith(es, "fatal error:", "panic:", "timeout")
 			c.Fail("C16:serialisable", sig, fmt.Sprintf("the engine process serving concurrent clients ended abnormally (%v): %s\n%s", err, first, clip(es, 1200)), nil)
 			c.Stat("child: crashed")
 		}
-		var rounds []concRound
-		if b, rerr := os.ReadFile(filepath.Join(dir, "rounds.json")); rerr == nil {
-			json.Unmarshal(b, &rounds)
-		}
 		for _, rd := range rounds {
-			c.Stat("round: " + rd.Verdict)
+			nRounds++
+			c.Stat("round " + rd.Kind + ": " + rd.Verdict)
+			if rd.Note != "" {
+				c.Stat("held: " + rd.Note)
+			}
 			nw := 0
 			for _, rq := range rd.Reqs {
 				if rq.Method != "GET" {
 					nw++
 				}
+				if rd.Kind == "both" {
+					c.Stat("both: " + concClass(rq) + " | " + clip(rq.Tok, 24))
+				} else {
+					k, _ := classifyPathGo(rq.Path)
+					c.Stat(fmt.Sprintf("api: %s kind %d | %s", rq.Method, k, strings.SplitN(rq.Tok, " ", 2)[0]))
+				}
 			}
 			c.Stat(fmt.Sprintf("round clients=%d", countClients(rd.Reqs)))
 			switch rd.Verdict {
 			case "serialisable":
-				// the ordering found goes through the Lean spec as an ordinary sequence: reset, set-up, requests, final read-back
-				run.reset()
-				for _, s := range rd.Setup {
-					run.exec(s.raw())
-				}
-				for _, i := range rd.Order {
-					if run.dead {
-						break
-					}
-					rq := rd.Reqs[i]
-					resp := run.exec(rq.raw())
-					if tok := canonResp(run.cx(), rq.raw(), resp).tok; tok != rq.Tok {
-						c.Fail("C16:serialisable", "engine:not-serialisable", fmt.Sprintf("re-executing the serial order found, %s %s answers %s; concurrently it answered %s", rq.Method, rq.Path, clip(tok, 300), clip(rq.Tok, 300)), nil)
-					}
-				}
-				c.Nontrivial(fmt.Sprintf("%d clients %d requests %d writes order %v", countClients(rd.Reqs), len(rd.Reqs), nw, rd.Order))
+				concReplay(c, run, rd)
+				c.Nontrivial(fmt.Sprintf("%s %d clients %d requests %d writes order %v", rd.Kind, countClients(rd.Reqs), len(rd.Reqs), nw, rd.Order))
 			case "not-serialisable":
 				c.Fail("C16:serialisable", "engine:not-serialisable", "no ordering of the concurrent requests that respects program order and real time reproduces, on the engine's own serial execution, the responses and final state observed ("+strconv.Itoa(rd.Explored)+" search nodes):\n"+rd.Detail, nil)
+			case "handler-blocked":
+				c.Fail("C16:serialisable", "engine:admin-handler-blocks", rd.Detail, nil)
+			case "handlers-overlap":
+				c.Fail("C16:no-unsynchronised-access", "engine:handlers-overlap", rd.Detail, nil)
 			case "search-exhausted":
+				nInconclusive++
 				c.Note("a round's search for a serial order hit its node budget (inconclusive, not counted)")
+			case "setup-failed":
+				nInconclusive++
+				c.Note("a round's set-up requests were not all answered 200 (inconclusive, not counted)")
 			}
 		}
+	}
+	c.extra["rounds"] = strconv.Itoa(nRounds)
+	c.extra["rounds_inconclusive"] = strconv.Itoa(nInconclusive)
+	if nRounds == 0 || nInconclusive*4 > nRounds {
+		c.Fail("C16:structural:rounds-inconclusive", "engine-conc:rounds-inconclusive", fmt.Sprintf("%d of %d rounds were inconclusive (search budget exhausted or set-up failed): the suite does not decide enough to count as evidence", nInconclusive, nRounds), nil)
 	}
 	c.Flush()
 }
 
+// concReplay sends the ordering found through the protocol as an ordinary sequence — reset, set-up, the requests in
+// order (admin requests as `admin` lines, against the admin multiplexer of the same RestServer) — so that the real
+// engine's serial execution and the Lean spec both have to give the answers that were observed concurrently.
+func concReplay(c *Ctx, run *seqRun, rd concRound) {
+	run.reset()
+	// the tokens of a round are canonicalised against the scenario of its set-up (also after a request of the round has
+	// replaced the scenario: the token is then still a function of the response alone)
+	cx := canonCtx{scen: run.cat.scenario(rd.DsRel, rd.LimVar, rd.Limit), fprintf: run.q.fprintf}
+	var adm *adminRun
+	if rd.Kind == "both" {
+		adm = &adminRun{c: c, ops: []string{"reset"}}
+		adm.attach(run.a.adminMux())
+	}
+	for _, s := range rd.Setup {
+		run.exec(s.raw())
+	}
+	differs := func(rq concReq, tok, word string) {
+		m := "api"
+		if rq.Mux != "" {
+			m = rq.Mux
+		}
+		c.Fail("C16:serialisable", "engine:not-serialisable", fmt.Sprintf("re-executing the serial order found, %s %s %s answers %s %s; concurrently it answered %s %s\n%s", m, rq.Method, rq.Path, clip(tok, 300), word, clip(rq.Tok, 300), rq.Word, describeReqs(rd.Reqs, rd.Final)), nil)
+	}
+	for _, i := range rd.Order {
+		if run.dead {
+			break
+		}
+		rq := rd.Reqs[i]
+		if rq.Mux == "admin" {
+			if tok := adm.exec(rq.Method, rq.Path); tok != rq.Tok {
+				differs(rq, tok, "")
+			}
+			continue
+		}
+		resp := run.exec(rq.raw())
+		tok := canonResp(cx, rq.raw(), resp).tok
+		word := ""
+		if rq.Path == "/" && resp.status == 200 {
+			word = statusWordOf(resp.body)
+		}
+		if tok != rq.Tok || word != rq.Word {
+			differs(rq, tok, word)
+		}
+	}
+}
 func countClients(rs []concReq) int {
 	m := map[int]bool{}
 	for _, r := range rs {
@@ -555,89 +1476,706 @@ func raceExcerpt(s string) string {
 }
 
 // ---------------------------------------------------------------- engine-facts
+//
+// The locking model (Crem/Model/Locking.lean) describes handlers that run one at a time under ONE lock and share state
+// with nothing else.  What that assumes about the code is extracted from /repo's source with go/ast on every run and
+// compared with the driver's expected answers (Driver/Engine.lean, `facts …` lines), so that a change of the code's
+// shape is a (structural) failure of the check:
+//
+//   facts servehttp        rest.MuxImpl.ServeHTTP starts with <mutex>.Lock(); defer <same>.Unlock(); no `go` statement in
+//                          the packages whose code runs inside a handler
+//   facts servehttp-unique exactly one ServeHTTP among the four multiplexer types (nothing shadows the locking one: the
+//                          harness serves *engineApi.Mux, production serves `Handler: mi`)
+//   facts lock-sites       every Lock/Unlock/RLock/RUnlock call of the server packages
+//   facts go-statements    every `go` statement of the server packages (three known sites)
+//   facts startup          what runs before the first `go` statement of RestServer.Start, and that the engine's initial
+//                          scenario / solution are loaded before the server is started
+//   facts handlers         every AddHandler(pattern, X.method): is X the multiplexer it is registered with
+//   facts locksets         lockset analysis (as Eraser's, over a syntactic call graph): every field of the multiplexers
+//                          that is written after start-up — by a handler, or by what RestServer.Start runs from its
+//                          first `go` statement on — with the locks held at ALL its accesses reachable after start-up
+//   facts post-start       the accesses to those fields made from outside ServeHTTP after start-up
+//
+// Own handlers start with the multiplexer's request lock held (when `facts servehttp` holds); a handler registered with
+// ANOTHER multiplexer starts with nothing held (the other multiplexer's request lock is not this one's).  Limits of the
+// extraction (syntactic, no type checker): locks are told apart by field name, not by instance; Lock/Unlock are tracked
+// in the top-level statements of a function body only (a lock taken in a nested block counts as not held); calls are
+// followed through methods of the five struct types and functions of their packages, not through interfaces other than
+// rest.Mux (= *engineApi.Mux as the API multiplexer, which RestServer.SetScenario's type assertion and cmd/cremengine's
+// buildApiMux show) nor through values of function type other than literal closures.
+
+type fPkg struct {
+	dir, short string
+	files      []*ast.File
+	funcs      map[string]*ast.FuncDecl
+	fileOf     map[*ast.FuncDecl]*ast.File
+}
+
+type fType struct {
+	key      string // e.g. rest.MuxImpl
+	pkg      *fPkg
+	file     *ast.File
+	fields   map[string]ast.Expr // named fields: declared type
+	embedded []ast.Expr          // embedded fields: declared type
+	methods  map[string]*ast.FuncDecl
+	mutexes  map[string]bool
+}
+
+type fUniverse struct {
+	fset  *token.FileSet
+	pkgs  map[string]*fPkg // by directory
+	types map[string]*fType
+}
+
+var factsDirs = [][2]string{
+	{"internal/pkg/server", "server"},
+	{"internal/pkg/server/rest", "rest"},
+	{"internal/pkg/server/api", "serverApi"},
+	{"internal/pkg/server/admin", "admin"},
+	{"cmd/cremengine/engine/api", "engineApi"},
+}
+
+var factsMuxTypes = []string{"rest.MuxImpl", "serverApi.Mux", "admin.Mux", "engineApi.Mux"}
+
+func loadFactsUniverse(repo string) *fUniverse {
+	u := &fUniverse{fset: token.NewFileSet(), pkgs: map[string]*fPkg{}, types: map[string]*fType{}}
+	for _, d := range factsDirs {
+		p := &fPkg{dir: d[0], short: d[1], funcs: map[string]*ast.FuncDecl{}, fileOf: map[*ast.FuncDecl]*ast.File{}}
+		u.pkgs[d[0]] = p
+		ents, _ := os.ReadDir(filepath.Join(repo, d[0]))
+		for _, ent := range ents {
+			if ent.IsDir() || !strings.HasSuffix(ent.Name(), ".go") || strings.HasSuffix(ent.Name(), "_test.go") {
+				continue
+			}
+			f, err := parser.ParseFile(u.fset, filepath.Join(repo, d[0], ent.Name()), nil, 0)
+			if err != nil {
+				continue
+			}
+			p.files = append(p.files, f)
+		}
+	}
+	for _, d := range factsDirs {
+		p := u.pkgs[d[0]]
+		for _, f := range p.files {
+			for _, decl := range f.Decls {
+				gd, ok := decl.(*ast.GenDecl)
+				if !ok {
+					continue
+				}
+				for _, sp := range gd.Specs {
+					ts, ok := sp.(*ast.TypeSpec)
+					if !ok {
+						continue
+					}
+					st, ok := ts.Type.(*ast.StructType)
+					if !ok {
+						continue
+					}
+					t := &fType{key: p.short + "." + ts.Name.Name, pkg: p, file: f, fields: map[string]ast.Expr{}, methods: map[string]*ast.FuncDecl{}, mutexes: map[string]bool{}}
+					for _, fld := range st.Fields.List {
+						if len(fld.Names) == 0 {
+							t.embedded = append(t.embedded, fld.Type)
+							continue
+						}
+						for _, nme := range fld.Names {
+							t.fields[nme.Name] = fld.Type
+							if se, ok := fld.Type.(*ast.SelectorExpr); ok {
+								if x, ok := se.X.(*ast.Ident); ok && x.Name == "sync" && (se.Sel.Name == "Mutex" || se.Sel.Name == "RWMutex") {
+									t.mutexes[nme.Name] = true
+								}
+							}
+						}
+					}
+					u.types[t.key] = t
+				}
+			}
+		}
+	}
+	for _, d := range factsDirs {
+		p := u.pkgs[d[0]]
+		for _, f := range p.files {
+			for _, decl := range f.Decls {
+				fd, ok := decl.(*ast.FuncDecl)
+				if !ok {
+					continue
+				}
+				p.fileOf[fd] = f
+				if fd.Recv == nil || len(fd.Recv.List) == 0 {
+					p.funcs[fd.Name.Name] = fd
+					continue
+				}
+				if t := u.resolveType(p, f, fd.Recv.List[0].Type); t != nil {
+					t.methods[fd.Name.Name] = fd
+				}
+			}
+		}
+	}
+	return u
+}
+
+// resolveType maps a type expression to one of the struct types of the scanned packages (nil if it is none).
+func (u *fUniverse) resolveType(p *fPkg, f *ast.File, e ast.Expr) *fType {
+	switch x := e.(type) {
+	case *ast.StarExpr:
+		return u.resolveType(p, f, x.X)
+	case *ast.ParenExpr:
+		return u.resolveType(p, f, x.X)
+	case *ast.Ident:
+		return u.types[p.short+"."+x.Name]
+	case *ast.SelectorExpr:
+		alias, ok := x.X.(*ast.Ident)
+		if !ok {
+			return nil
+		}
+		for _, imp := range f.Imports {
+			path := strings.Trim(imp.Path.Value, `"`)
+			name := path[strings.LastIndex(path, "/")+1:]
+			if imp.Name != nil {
+				name = imp.Name.Name
+			}
+			if name != alias.Name {
+				continue
+			}
+			for _, d := range factsDirs {
+				if strings.HasSuffix(path, "/"+d[0]) {
+					if d[1] == "rest" && x.Sel.Name == "Mux" {
+						return u.types["engineApi.Mux"] // the interface rest.Mux: the API multiplexer production passes in
+					}
+					return u.types[d[1]+"."+x.Sel.Name]
+				}
+			}
+		}
+	}
+	return nil
+}
+
+func embeddedName(e ast.Expr) string {
+	switch x := e.(type) {
+	case *ast.StarExpr:
+		return embeddedName(x.X)
+	case *ast.Ident:
+		return x.Name
+	case *ast.SelectorExpr:
+		return x.Sel.Name
+	}
+	return ""
+}
+
+// method finds a method by name on the type or, breadth first, on what it embeds.
+func (u *fUniverse) method(t *fType, name string) (*fType, *ast.FuncDecl) {
+	queue := []*fType{t}
+	for len(queue) > 0 {
+		c := queue[0]
+		queue = queue[1:]
+		if fd, ok := c.methods[name]; ok {
+			return c, fd
+		}
+		for _, e := range c.embedded {
+			if et := u.resolveType(c.pkg, c.file, e); et != nil {
+				queue = append(queue, et)
+			}
+		}
+	}
+	return nil, nil
+}
+
+// field finds a named field, or an embedded one by its type's name; the declared type comes with it.
+func (u *fUniverse) field(t *fType, name string) (*fType, ast.Expr) {
+	queue := []*fType{t}
+	for len(queue) > 0 {
+		c := queue[0]
+		queue = queue[1:]
+		if e, ok := c.fields[name]; ok {
+			return c, e
+		}
+		for _, e := range c.embedded {
+			if embeddedName(e) == name {
+				return c, e
+			}
+			if et := u.resolveType(c.pkg, c.file, e); et != nil {
+				queue = append(queue, et)
+			}
+		}
+	}
+	return nil, nil
+}
+
+func (u *fUniverse) mutexOf(t *fType, name string) bool {
+	owner, _ := u.field(t, name)
+	return owner != nil && owner.mutexes[name]
+}
+
+func recvName(fd *ast.FuncDecl) string {
+	if fd.Recv == nil || len(fd.Recv.List) == 0 || len(fd.Recv.List[0].Names) == 0 {
+		return ""
+	}
+	return fd.Recv.List[0].Names[0].Name
+}
+
+func fExprText(e ast.Expr) string {
+	switch x := e.(type) {
+	case *ast.Ident:
+		return x.Name
+	case *ast.SelectorExpr:
+		return fExprText(x.X) + "." + x.Sel.Name
+	case *ast.CallExpr:
+		return fExprText(x.Fun) + "()"
+	case *ast.StarExpr:
+		return "*" + fExprText(x.X)
+	case *ast.ParenExpr:
+		return fExprText(x.X)
+	case *ast.IndexExpr:
+		return fExprText(x.X) + "[]"
+	}
+	return "?"
+}
+
+// ---- the walker
+
+type fAccess struct {
+	field string // <owner type>.<field>
+	kind  string // R | W | & | C:<method called on the field's value>
+	held  string // locks held, sorted, "+"-joined; "-" if none
+	where string // entry: handler | foreign | start/go | start/main …
+	fn    string // function the access is written in
+}
+
+type fWalker struct {
+	u       *fUniverse
+	out     []fAccess
+	seen    map[string]bool
+	goSites []string
+}
+
+func heldKey(h map[string]bool) string {
+	var ks []string
+	for k := range h {
+		ks = append(ks, k)
+	}
+	if len(ks) == 0 {
+		return "-"
+	}
+	sort.Strings(ks)
+	return strings.Join(ks, "+")
+}
+
+func copyHeld(h map[string]bool, add ...string) map[string]bool {
+	o := map[string]bool{}
+	for k := range h {
+		o[k] = true
+	}
+	for _, a := range add {
+		o[a] = true
+	}
+	return o
+}
+
+// lockCall recognises <var>.<mutex field>.<Lock|Unlock|…>() on a variable of the environment.
+func (w *fWalker) lockCall(e ast.Expr, env map[string]*fType) (field, op string, ok bool) {
+	ce, isCall := e.(*ast.CallExpr)
+	if !isCall {
+		return "", "", false
+	}
+	se, isSel := ce.Fun.(*ast.SelectorExpr)
+	if !isSel {
+		return "", "", false
+	}
+	switch se.Sel.Name {
+	case "Lock", "Unlock", "RLock", "RUnlock", "TryLock", "TryRLock":
+	default:
+		return "", "", false
+	}
+	inner, isSel := se.X.(*ast.SelectorExpr)
+	if !isSel {
+		return "", "", false
+	}
+	v, isIdent := inner.X.(*ast.Ident)
+	if !isIdent || env[v.Name] == nil || !w.u.mutexOf(env[v.Name], inner.Sel.Name) {
+		return "", "", false
+	}
+	return inner.Sel.Name, se.Sel.Name, true
+}
+
+// lockWrapper: a method whose body is <recv>.<L>.Lock(); defer <recv>.<L>.Unlock(); <its one function parameter>() —
+// the closure handed to it runs under L.
+func (w *fWalker) lockWrapper(t *fType, fd *ast.FuncDecl) (string, bool) {
+	if fd.Body == nil || len(fd.Body.List) != 3 || fd.Type.Params == nil || len(fd.Type.Params.List) != 1 || len(fd.Type.Params.List[0].Names) != 1 {
+		return "", false
+	}
+	if _, isFunc := fd.Type.Params.List[0].Type.(*ast.FuncType); !isFunc {
+		return "", false
+	}
+	env := map[string]*fType{recvName(fd): t}
+	s0, ok0 := fd.Body.List[0].(*ast.ExprStmt)
+	s1, ok1 := fd.Body.List[1].(*ast.DeferStmt)
+	s2, ok2 := fd.Body.List[2].(*ast.ExprStmt)
+	if !ok0 || !ok1 || !ok2 {
+		return "", false
+	}
+	l0, op0, a := w.lockCall(s0.X, env)
+	l1, op1, b := w.lockCall(s1.Call, env)
+	if !a || !b || op0 != "Lock" || op1 != "Unlock" || l0 != l1 {
+		return "", false
+	}
+	ce, isCall := s2.X.(*ast.CallExpr)
+	if !isCall || len(ce.Args) != 0 {
+		return "", false
+	}
+	if id, isIdent := ce.Fun.(*ast.Ident); !isIdent || id.Name != fd.Type.Params.List[0].Names[0].Name {
+		return "", false
+	}
+	return l0, true
+}
+
+func (w *fWalker) fnName(t *fType, fd *ast.FuncDecl, p *fPkg) string {
+	if t != nil {
+		return t.key + "." + fd.Name.Name
+	}
+	return p.short + "." + fd.Name.Name
+}
+
+// walkFunc follows a function's body; env maps the variables whose type is one of the struct types.
+func (w *fWalker) walkFunc(t *fType, p *fPkg, fd *ast.FuncDecl, env map[string]*fType, held map[string]bool, where string) {
+	if fd.Body == nil {
+		return
+	}
+	fn := w.fnName(t, fd, p)
+	var envKeys []string
+	for k, v := range env {
+		if v != nil {
+			envKeys = append(envKeys, k+"="+v.key)
+		}
+	}
+	sort.Strings(envKeys)
+	key := fn + "|" + strings.Join(envKeys, ",") + "|" + heldKey(held) + "|" + where
+	if w.seen[key] {
+		return
+	}
+	w.seen[key] = true
+	w.walkBody(p, p.fileOf[fd], fd.Body.List, env, held, where, fn)
+}
+
+// walkBody: the top-level statements of a function (or closure) body, with the locks they take and release.
+func (w *fWalker) walkBody(p *fPkg, file *ast.File, stmts []ast.Stmt, env map[string]*fType, held map[string]bool, where, fn string) {
+	held = copyHeld(held)
+	for _, s := range stmts {
+		switch x := s.(type) {
+		case *ast.ExprStmt:
+			if l, op, ok := w.lockCall(x.X, env); ok {
+				switch op {
+				case "Lock":
+					held[l] = true
+				case "Unlock":
+					delete(held, l)
+				}
+				continue // RLock and friends: shared, not counted as held
+			}
+		case *ast.DeferStmt:
+			if _, _, ok := w.lockCall(x.Call, env); ok {
+				continue // released when the function returns
+			}
+		}
+		w.walkNode(p, file, s, env, held, where, fn)
+	}
+}
+
+func (w *fWalker) record(owner *fType, field, kind string, held map[string]bool, where, fn string) {
+	w.out = append(w.out, fAccess{field: owner.key + "." + field, kind: kind, held: heldKey(held), where: where, fn: fn})
+}
+
+// rootField: the <var>.<field> at the root of a selector / index chain, for a variable of the environment.
+func (w *fWalker) rootField(e ast.Expr, env map[string]*fType) (*ast.SelectorExpr, *fType, bool) {
+	for {
+		switch x := e.(type) {
+		case *ast.ParenExpr:
+			e = x.X
+			continue
+		case *ast.IndexExpr:
+			e = x.X
+			continue
+		case *ast.StarExpr:
+			e = x.X
+			continue
+		case *ast.SelectorExpr:
+			if v, isIdent := x.X.(*ast.Ident); isIdent && env[v.Name] != nil {
+				if owner, _ := w.u.field(env[v.Name], x.Sel.Name); owner != nil {
+					return x, owner, true
+				}
+				return nil, nil, false
+			}
+			e = x.X
+			continue
+		}
+		return nil, nil, false
+	}
+}
+
+func (w *fWalker) walkNode(p *fPkg, file *ast.File, root ast.Node, env map[string]*fType, held map[string]bool, where, fn string) {
+	consumed := map[ast.Node]bool{}
+	ast.Inspect(root, func(n ast.Node) bool {
+		switch x := n.(type) {
+		case *ast.GoStmt:
+			w.goSites = append(w.goSites, fn)
+			// a new goroutine holds none of its creator's locks
+			w.walkCall(p, file, x.Call, env, map[string]bool{}, where+"/go", fn, consumed)
+			for _, a := range x.Call.Args {
+				w.walkNode(p, file, a, env, held, where, fn)
+			}
+			return false
+		case *ast.FuncLit:
+			w.walkBody(p, file, x.Body.List, env, held, where, fn)
+			return false
+		case *ast.AssignStmt:
+			for _, l := range x.Lhs {
+				if sel, owner, ok := w.rootField(l, env); ok {
+					consumed[sel] = true
+					w.record(owner, sel.Sel.Name, "W", held, where, fn)
+				}
+			}
+		case *ast.IncDecStmt:
+			if sel, owner, ok := w.rootField(x.X, env); ok {
+				consumed[sel] = true
+				w.record(owner, sel.Sel.Name, "W", held, where, fn)
+			}
+		case *ast.UnaryExpr:
+			if x.Op == token.AND {
+				if sel, owner, ok := w.rootField(x.X, env); ok {
+					consumed[sel] = true
+					w.record(owner, sel.Sel.Name, "&", held, where, fn)
+				}
+			}
+		case *ast.CallExpr:
+			return w.walkCall(p, file, x, env, held, where, fn, consumed)
+		case *ast.SelectorExpr:
+			if consumed[x] {
+				return true
+			}
+			if v, isIdent := x.X.(*ast.Ident); isIdent && env[v.Name] != nil {
+				if owner, _ := w.u.field(env[v.Name], x.Sel.Name); owner != nil {
+					w.record(owner, x.Sel.Name, "R", held, where, fn)
+				}
+				return false
+			}
+		}
+		return true
+	})
+}
+
+// bind gives the callee's environment: its receiver and those parameters whose argument is a variable or field of one
+// of the struct types.
+func (w *fWalker) bind(callee *ast.FuncDecl, recv *fType, args []ast.Expr, p *fPkg, file *ast.File, env map[string]*fType) map[string]*fType {
+	out := map[string]*fType{}
+	if recv != nil && recvName(callee) != "" {
+		out[recvName(callee)] = recv
+	}
+	i := 0
+	if callee.Type.Params != nil {
+		for _, fld := range callee.Type.Params.List {
+			for _, nme := range fld.Names {
+				if i < len(args) {
+					if t := w.typeOfExpr(args[i], p, file, env); t != nil {
+						out[nme.Name] = t
+					}
+				}
+				i++
+			}
+		}
+	}
+	return out
+}
+
+func (w *fWalker) typeOfExpr(e ast.Expr, p *fPkg, file *ast.File, env map[string]*fType) *fType {
+	switch x := e.(type) {
+	case *ast.Ident:
+		return env[x.Name]
+	case *ast.SelectorExpr:
+		if v, isIdent := x.X.(*ast.Ident); isIdent && env[v.Name] != nil {
+			if owner, te := w.u.field(env[v.Name], x.Sel.Name); owner != nil {
+				return w.u.resolveType(owner.pkg, owner.file, te)
+			}
+		}
+	case *ast.UnaryExpr:
+		return w.typeOfExpr(x.X, p, file, env)
+	}
+	return nil
+}
+
+// walkCall follows a call; the return value tells ast.Inspect whether to descend into the call expression itself.
+func (w *fWalker) walkCall(p *fPkg, file *ast.File, call *ast.CallExpr, env map[string]*fType, held map[string]bool, where, fn string, consumed map[ast.Node]bool) bool {
+	descend := func() bool {
+		for _, a := range call.Args {
+			w.walkNode(p, file, a, env, held, where, fn)
+		}
+		return false
+	}
+	switch f := call.Fun.(type) {
+	case *ast.FuncLit: // go func() {…}() / func() {…}()
+		w.walkBody(p, file, f.Body.List, env, held, where, fn)
+		return descend()
+	case *ast.Ident:
+		if callee, ok := p.funcs[f.Name]; ok {
+			w.walkFunc(nil, p, callee, w.bind(callee, nil, call.Args, p, file, env), held, where)
+		}
+		return descend()
+	case *ast.SelectorExpr:
+		// <var>.M(…)
+		if v, isIdent := f.X.(*ast.Ident); isIdent && env[v.Name] != nil {
+			if owner, callee := w.u.method(env[v.Name], f.Sel.Name); callee != nil {
+				if l, isWrapper := w.lockWrapper(owner, callee); isWrapper && len(call.Args) == 1 {
+					if lit, isLit := call.Args[0].(*ast.FuncLit); isLit {
+						w.walkBody(p, file, lit.Body.List, env, copyHeld(held, l), where, fn)
+						return false
+					}
+				}
+				// the receiver stays the variable's own type: methods of an embedded type see the fields they declare
+				w.walkFunc(owner, owner.pkg, callee, w.bind(callee, owner, call.Args, p, file, env), held, where)
+				return descend()
+			}
+			if fo, _ := w.u.field(env[v.Name], f.Sel.Name); fo != nil {
+				w.record(fo, f.Sel.Name, "R", held, where, fn) // a field of function type is called
+			}
+			return descend()
+		}
+		// <var>.<field>.M(…)
+		if inner, isSel := f.X.(*ast.SelectorExpr); isSel {
+			if v, isIdent := inner.X.(*ast.Ident); isIdent && env[v.Name] != nil {
+				if fo, te := w.u.field(env[v.Name], inner.Sel.Name); fo != nil {
+					if ft := w.u.resolveType(fo.pkg, fo.file, te); ft != nil {
+						// the field is itself one of the struct types (a multiplexer held by the server, an embedded one)
+						if owner, callee := w.u.method(ft, f.Sel.Name); callee != nil {
+							w.walkFunc(owner, owner.pkg, callee, w.bind(callee, owner, call.Args, p, file, env), held, where)
+						}
+						return descend()
+					}
+					consumed[inner] = true
+					w.record(fo, inner.Sel.Name, "C:"+f.Sel.Name, held, where, fn)
+					return descend()
+				}
+			}
+		}
+	}
+	return true
+}
+
+// Fields with an empty lockset that are accepted, with the reason (they appear in the expected `facts locksets` answer as
+// `@-`; everything else with an empty lockset is a failure):
+//
+//	rest.MuxImpl.server — the http.Server of a multiplexer's life cycle, not state that requests share.  Written by
+//	MuxImpl.Start (in the goroutine RestServer.Start creates for the multiplexer, before ListenAndServe in the same
+//	goroutine), handed out by Server() and used by Shutdown on the server's main goroutine after the shutdown signal.
+//	For the admin multiplexer the signal comes from a handler its own ListenAndServe started, so the write happens
+//	before the use; for the API multiplexer nothing orders the two if a shutdown is requested before the API goroutine
+//	has run (a latent start-up race of the server object, reported to the maintainers; outside the property's clause
+//	about the shared model).
+var factsLifecycleFields = map[string]bool{"rest.MuxImpl.server": true}
 
 func suiteEngineFacts(c *Ctx) {
 	repo := os.Getenv("VERIF_REPO")
 	if repo == "" {
 		repo = "/repo"
 	}
-	fset := token.NewFileSet()
-	// 1. rest.MuxImpl.ServeHTTP: first statement acquires a sync.Mutex field, second is `defer <same>.Unlock()`
-	restFile := filepath.Join(repo, "internal/pkg/server/rest/Mux.go")
-	f, err := parser.ParseFile(fset, restFile, nil, 0)
-	must(err)
-	mutexFields := map[string]bool{}
-	ast.Inspect(f, func(n ast.Node) bool {
-		ts, ok := n.(*ast.TypeSpec)
-		if !ok || ts.Name.Name != "MuxImpl" {
-			return true
+	u := loadFactsUniverse(repo)
+	fset := u.fset
+	pos := func(n ast.Node) string {
+		p := fset.Position(n.Pos())
+		rel, err := filepath.Rel(repo, p.Filename)
+		if err != nil {
+			rel = p.Filename
 		}
-		if st, ok := ts.Type.(*ast.StructType); ok {
-			for _, fld := range st.Fields.List {
-				if se, ok := fld.Type.(*ast.SelectorExpr); ok {
-					if x, ok := se.X.(*ast.Ident); ok && x.Name == "sync" && (se.Sel.Name == "Mutex" || se.Sel.Name == "RWMutex") {
-						for _, nme := range fld.Names {
-							mutexFields[nme.Name] = true
+		return fmt.Sprintf("%s:%d", rel, p.Line)
+	}
+	w := &fWalker{u: u, seen: map[string]bool{}}
+	emit := func(name, res string) {
+		c.Op("facts "+name, res)
+		c.extra["facts_"+name] = res
+		c.Stat("facts " + name + ": " + clip(res, 200))
+		c.Nontrivial(name + "=" + res)
+	}
+
+	// ---- 1. rest.MuxImpl.ServeHTTP: first statement acquires a sync.Mutex field, second is `defer <same>.Unlock()`
+	muxImpl := u.types["rest.MuxImpl"]
+	lockFirst, unlockDeferred := false, false
+	requestLock := ""
+	if muxImpl != nil {
+		if fd := muxImpl.methods["ServeHTTP"]; fd != nil && fd.Body != nil && len(fd.Body.List) >= 2 {
+			env := map[string]*fType{recvName(fd): muxImpl}
+			if es, ok := fd.Body.List[0].(*ast.ExprStmt); ok {
+				if fld, op, ok := w.lockCall(es.X, env); ok && op == "Lock" {
+					lockFirst = true
+					if ds, ok := fd.Body.List[1].(*ast.DeferStmt); ok {
+						if fld2, op2, ok := w.lockCall(ds.Call, env); ok && op2 == "Unlock" && fld2 == fld {
+							unlockDeferred = true
+							requestLock = fld
 						}
 					}
 				}
 			}
 		}
-		return false
-	})
-	lockFirst, unlockDeferred := false, false
-	callOn := func(e ast.Expr, method string) (string, bool) {
-		ce, ok := e.(*ast.CallExpr)
-		if !ok {
-			return "", false
-		}
-		se, ok := ce.Fun.(*ast.SelectorExpr)
-		if !ok || se.Sel.Name != method {
-			return "", false
-		}
-		inner, ok := se.X.(*ast.SelectorExpr)
-		if !ok {
-			return "", false
-		}
-		return inner.Sel.Name, true
 	}
-	for _, d := range f.Decls {
-		fd, ok := d.(*ast.FuncDecl)
-		if !ok || fd.Name.Name != "ServeHTTP" || fd.Recv == nil || fd.Body == nil || len(fd.Body.List) < 2 {
-			continue
-		}
-		if es, ok := fd.Body.List[0].(*ast.ExprStmt); ok {
-			if fld, ok := callOn(es.X, "Lock"); ok && mutexFields[fld] {
-				lockFirst = true
-				if ds, ok := fd.Body.List[1].(*ast.DeferStmt); ok {
-					if fld2, ok := callOn(ds.Call, "Unlock"); ok && fld2 == fld {
-						unlockDeferred = true
+	// no `go` statement in the engine's api package or the rest package (handlers run on the request's goroutine)
+	var handlerGo, allGo []string
+	var lockSites []string
+	var serveHTTPs, serves []string
+	for _, d := range factsDirs {
+		p := u.pkgs[d[0]]
+		inHandlerPkg := d[1] == "engineApi" || d[1] == "rest" || d[1] == "serverApi"
+		for _, f := range p.files {
+			for _, decl := range f.Decls {
+				fd, ok := decl.(*ast.FuncDecl)
+				if !ok {
+					continue
+				}
+				var t *fType
+				if fd.Recv != nil && len(fd.Recv.List) > 0 {
+					t = u.resolveType(p, f, fd.Recv.List[0].Type)
+				}
+				fn := w.fnName(t, fd, p)
+				if fd.Name.Name == "ServeHTTP" && fd.Recv != nil {
+					if t == nil {
+						fn = p.short + ".(" + fExprText(fd.Recv.List[0].Type) + ").ServeHTTP" // a non-struct receiver
 					}
+					serveHTTPs = append(serveHTTPs, strings.TrimSuffix(fn, ".ServeHTTP"))
 				}
+				if fd.Body == nil {
+					continue
+				}
+				ast.Inspect(fd.Body, func(n ast.Node) bool {
+					switch x := n.(type) {
+					case *ast.GoStmt:
+						allGo = append(allGo, fn)
+						if inHandlerPkg {
+							handlerGo = append(handlerGo, pos(x))
+						}
+					case *ast.DeferStmt:
+						if se, ok := x.Call.Fun.(*ast.SelectorExpr); ok {
+							switch se.Sel.Name {
+							case "Lock", "Unlock", "RLock", "RUnlock", "TryLock", "TryRLock":
+								lockSites = append(lockSites, fn+":defer:"+fExprText(se.X)+"."+se.Sel.Name)
+								return false
+							}
+						}
+					case *ast.SelectorExpr:
+						switch x.Sel.Name {
+						case "Lock", "Unlock", "RLock", "RUnlock", "TryLock", "TryRLock":
+							lockSites = append(lockSites, fn+":"+fExprText(x.X)+"."+x.Sel.Name)
+						}
+					case *ast.CompositeLit:
+						if se, ok := x.Type.(*ast.SelectorExpr); ok && fExprText(se) == "http.Server" {
+							h := "none"
+							for _, el := range x.Elts {
+								if kv, ok := el.(*ast.KeyValueExpr); ok && fExprText(kv.Key) == "Handler" {
+									h = fExprText(kv.Value)
+								}
+							}
+							serves = append(serves, fn+":"+h)
+						}
+					}
+					return true
+				})
 			}
 		}
 	}
-	// 2. no `go` statement in the engine's api package or the rest package (handlers run on the request's goroutine)
-	goStmts := []string{}
-	for _, dir := range []string{"cmd/cremengine/engine/api", "internal/pkg/server/rest", "internal/pkg/server/api"} {
-		ents, _ := os.ReadDir(filepath.Join(repo, dir))
-		for _, ent := range ents {
-			if !strings.HasSuffix(ent.Name(), ".go") || strings.HasSuffix(ent.Name(), "_test.go") {
-				continue
-			}
-			pf, perr := parser.ParseFile(fset, filepath.Join(repo, dir, ent.Name()), nil, 0)
-			if perr != nil {
-				continue
-			}
-			ast.Inspect(pf, func(n ast.Node) bool {
-				if g, ok := n.(*ast.GoStmt); ok {
-					goStmts = append(goStmts, fmt.Sprintf("%s:%d", filepath.Join(dir, ent.Name()), fset.Position(g.Pos()).Line))
-				}
-				return true
-			})
-		}
-	}
-	res := fmt.Sprintf("lock-first=%s unlock-deferred=%s go-statements=%d", b2s(lockFirst), b2s(unlockDeferred), len(goStmts))
+	res := fmt.Sprintf("lock-first=%s unlock-deferred=%s go-statements=%d", b2s(lockFirst), b2s(unlockDeferred), len(handlerGo))
 	c.Op("facts servehttp", res)
 	c.extra["engine_facts"] = res
 	c.Stat("facts: " + res)
@@ -645,7 +2183,274 @@ func suiteEngineFacts(c *Ctx) {
 	if !lockFirst || !unlockDeferred {
 		c.Fail("C16:structural-tie", "engine:no-request-lock", "rest.MuxImpl.ServeHTTP does not start with <mutex field>.Lock() followed by defer <same>.Unlock(): the locking model (Crem/Model/Locking.lean) does not describe this code; requests are handled without mutual exclusion ("+res+")", []string{"facts servehttp"})
 	}
-	if len(goStmts) > 0 {
-		c.Fail("C16:structural-tie", "engine:handler-starts-goroutine", "go statements in request-handling packages: "+strings.Join(goStmts, ", "), []string{"facts servehttp"})
+	if len(handlerGo) > 0 {
+		c.Fail("C16:structural-tie", "engine:handler-starts-goroutine", "go statements in request-handling packages: "+strings.Join(handlerGo, ", "), []string{"facts servehttp"})
+	}
+
+	// ---- 2. the handlers, and where they are registered
+	type registration struct {
+		site, target, handlerRecv, method string
+		recvType                          *fType
+		foreign                           bool
+	}
+	var regs []registration
+	for _, d := range factsDirs {
+		p := u.pkgs[d[0]]
+		for _, f := range p.files {
+			for _, decl := range f.Decls {
+				fd, ok := decl.(*ast.FuncDecl)
+				if !ok || fd.Body == nil {
+					continue
+				}
+				var t *fType
+				if fd.Recv != nil && len(fd.Recv.List) > 0 {
+					t = u.resolveType(p, f, fd.Recv.List[0].Type)
+				}
+				env := map[string]*fType{}
+				if t != nil && recvName(fd) != "" {
+					env[recvName(fd)] = t
+				}
+				ast.Inspect(fd.Body, func(n ast.Node) bool {
+					ce, ok := n.(*ast.CallExpr)
+					if !ok || len(ce.Args) != 2 {
+						return true
+					}
+					se, ok := ce.Fun.(*ast.SelectorExpr)
+					if !ok || se.Sel.Name != "AddHandler" {
+						return true
+					}
+					h, ok := ce.Args[1].(*ast.SelectorExpr)
+					if !ok {
+						return true // a handler passed through (AddHandler delegating to the handler map)
+					}
+					r := registration{site: w.fnName(t, fd, p), target: fExprText(se.X), handlerRecv: fExprText(h.X), method: h.Sel.Name}
+					r.recvType = w.typeOfExpr(h.X, p, f, env)
+					r.foreign = r.target != r.handlerRecv
+					regs = append(regs, r)
+					return true
+				})
+			}
+		}
+	}
+	ownHeld := map[string]bool{}
+	if requestLock != "" {
+		ownHeld[requestLock] = true
+	}
+	var handlerFacts []string
+	nOwn := 0
+	for _, r := range regs {
+		kind := "own"
+		if r.foreign {
+			kind = "foreign"
+		}
+		var owner *fType
+		var fd *ast.FuncDecl
+		if r.recvType != nil {
+			owner, fd = u.method(r.recvType, r.method)
+		}
+		switch {
+		case fd == nil: // a handler the extraction cannot follow is named, so that it cannot go unnoticed
+			handlerFacts = append(handlerFacts, fmt.Sprintf("unresolved=%s:%s<-%s.%s", r.site, r.target, r.handlerRecv, r.method))
+			continue
+		case r.foreign:
+			handlerFacts = append(handlerFacts, fmt.Sprintf("foreign=%s:%s<-%s.%s", r.site, r.target, r.handlerRecv, r.method))
+		default:
+			nOwn++
+		}
+		_ = kind
+		if r.foreign {
+			w.walkFunc(owner, owner.pkg, fd, map[string]*fType{recvName(fd): r.recvType}, map[string]bool{}, "foreign:"+r.recvType.key+"."+r.method)
+		} else {
+			w.walkFunc(owner, owner.pkg, fd, map[string]*fType{recvName(fd): r.recvType}, ownHeld, "handler")
+		}
+	}
+	// ServeHTTP itself, on each multiplexer type that is served
+	if muxImpl != nil {
+		if fd := muxImpl.methods["ServeHTTP"]; fd != nil {
+			for _, k := range []string{"engineApi.Mux", "admin.Mux"} {
+				if t := u.types[k]; t != nil {
+					w.walkFunc(muxImpl, muxImpl.pkg, fd, map[string]*fType{recvName(fd): t}, map[string]bool{}, "handler")
+				}
+			}
+		}
+	}
+
+	// ---- 3. RestServer.Start: what runs before the first `go` statement, and everything from there on
+	var beforeGo []string
+	if rs := u.types["server.RestServer"]; rs != nil {
+		if fd := rs.methods["Start"]; fd != nil && fd.Body != nil {
+			env := map[string]*fType{recvName(fd): rs}
+			first := len(fd.Body.List)
+			for i, s := range fd.Body.List {
+				isGo := false
+				ast.Inspect(s, func(n ast.Node) bool {
+					if _, ok := n.(*ast.GoStmt); ok {
+						isGo = true
+					}
+					return !isGo
+				})
+				if isGo {
+					first = i
+					break
+				}
+				ast.Inspect(s, func(n ast.Node) bool {
+					if ce, ok := n.(*ast.CallExpr); ok {
+						beforeGo = append(beforeGo, fExprText(ce.Fun))
+					}
+					return true
+				})
+			}
+			w.walkBody(rs.pkg, rs.pkg.fileOf[fd], fd.Body.List[first:], env, map[string]bool{}, "start", "server.RestServer.Start")
+		}
+	}
+	bootstrap := "unreadable"
+	if bf, err := parser.ParseFile(fset, filepath.Join(repo, "cmd/cremengine/bootstrap/Engine.go"), nil, 0); err == nil {
+		for _, decl := range bf.Decls {
+			if fd, ok := decl.(*ast.FuncDecl); ok && fd.Name.Name == "RunEngineFromArguments" && fd.Body != nil {
+				var calls []string
+				for _, s := range fd.Body.List {
+					if es, ok := s.(*ast.ExprStmt); ok {
+						if ce, ok := es.X.(*ast.CallExpr); ok {
+							calls = append(calls, fExprText(ce.Fun))
+							continue
+						}
+					}
+					calls = append(calls, "?")
+				}
+				bootstrap = strings.Join(calls, ",")
+			}
+		}
+	}
+
+	// ---- 4. locksets of the fields written after start-up
+	live := map[string]bool{}
+	for _, a := range w.out {
+		if a.kind == "W" {
+			live[a.field] = true
+		}
+	}
+	uniq := func(xs []string) []string {
+		sort.Strings(xs)
+		var out []string
+		for i, x := range xs {
+			if i == 0 || x != xs[i-1] {
+				out = append(out, x)
+			}
+		}
+		return out
+	}
+	lockset := map[string]map[string]bool{}
+	unlockedAt := map[string][]string{}
+	foreignTouches := map[string][]string{}
+	for _, a := range w.out {
+		if !live[a.field] {
+			continue
+		}
+		cur := map[string]bool{}
+		if a.held != "-" {
+			for _, l := range strings.Split(a.held, "+") {
+				cur[l] = true
+			}
+		}
+		if ls, ok := lockset[a.field]; !ok {
+			lockset[a.field] = cur
+		} else {
+			for l := range ls {
+				if !cur[l] {
+					delete(ls, l)
+				}
+			}
+		}
+		if strings.HasPrefix(a.where, "foreign:") {
+			foreignTouches[a.field] = append(foreignTouches[a.field], strings.TrimPrefix(a.where, "foreign:"))
+		}
+	}
+	for _, a := range w.out {
+		if live[a.field] && len(lockset[a.field]) == 0 {
+			// "0" sorts the accesses that hold nothing first
+			rank := "1"
+			if a.held == "-" {
+				rank = "0"
+			}
+			unlockedAt[a.field] = append(unlockedAt[a.field], fmt.Sprintf("%s holding %s: %s in %s [%s]", rank, a.held, a.kind, a.fn, a.where))
+		}
+	}
+	for f, xs := range unlockedAt {
+		xs = uniq(xs)
+		for i := range xs {
+			xs[i] = xs[i][2:]
+		}
+		if len(xs) > 10 {
+			xs = append(xs[:10], fmt.Sprintf("… and %d more accesses", len(xs)-10))
+		}
+		unlockedAt[f] = xs
+	}
+	var locksetFacts, postStart []string
+	for f := range live {
+		locksetFacts = append(locksetFacts, f+"@"+heldKey(lockset[f]))
+	}
+	seenPS := map[string]bool{}
+	for _, a := range w.out {
+		if live[a.field] && strings.HasPrefix(a.where, "start") {
+			e := fmt.Sprintf("%s:%s:%s@%s", a.where, a.field, a.kind, a.held)
+			if !seenPS[e] {
+				seenPS[e] = true
+				postStart = append(postStart, e)
+			}
+		}
+	}
+	join := func(xs []string) string {
+		if len(xs) == 0 {
+			return "-"
+		}
+		return strings.Join(xs, " ")
+	}
+	sort.Strings(serveHTTPs)
+	sort.Strings(serves)
+	sort.Strings(lockSites)
+	sort.Strings(allGo)
+	sort.Strings(handlerFacts)
+	sort.Strings(locksetFacts)
+	sort.Strings(postStart)
+	emit("servehttp-unique", "servehttp="+join(serveHTTPs)+" serves="+join(serves))
+	emit("lock-sites", join(lockSites))
+	emit("go-statements", join(allGo))
+	emit("startup", "bootstrap="+bootstrap+" start-before-go="+join(beforeGo))
+	emit("handlers", strings.TrimSuffix(fmt.Sprintf("own=%d %s", nOwn, strings.Join(handlerFacts, " ")), " "))
+	emit("locksets", join(locksetFacts))
+	emit("post-start", join(postStart))
+
+	// ---- 5. what the facts mean for the property
+	var foreignBad, otherBad []string
+	for f := range live {
+		if len(lockset[f]) > 0 || factsLifecycleFields[f] {
+			continue
+		}
+		if len(foreignTouches[f]) > 0 {
+			foreignBad = append(foreignBad, f)
+		} else {
+			otherBad = append(otherBad, f)
+		}
+	}
+	sort.Strings(foreignBad)
+	sort.Strings(otherBad)
+	if len(foreignBad) > 0 {
+		var sb strings.Builder
+		for _, r := range regs {
+			if r.foreign {
+				fmt.Fprintf(&sb, "%s registers %s.%s with %s: the handler runs under that multiplexer's request lock, not under its own multiplexer's.\n", r.site, r.handlerRecv, r.method, r.target)
+			}
+		}
+		for _, f := range foreignBad {
+			fmt.Fprintf(&sb, "%s is written after start-up and no lock is held at all of its accesses (reached from the handler registered elsewhere: %s):\n  %s\n", f, strings.Join(uniq(foreignTouches[f]), ", "), strings.Join(unlockedAt[f], "\n  "))
+		}
+		c.Fail("C16:structural:handler-of-other-mux", "engine:handler-registered-on-foreign-mux", clip(sb.String(), 3000), []string{"facts handlers", "facts locksets"})
+	}
+	if len(otherBad) > 0 {
+		var sb strings.Builder
+		for _, f := range otherBad {
+			fmt.Fprintf(&sb, "%s is written after start-up and no lock is held at all of its accesses:\n  %s\n", f, strings.Join(unlockedAt[f], "\n  "))
+		}
+		c.Fail("C16:structural:state-outside-request-lock", "engine:shared-state-outside-request-lock", clip(sb.String(), 3000), []string{"facts locksets", "facts post-start"})
 	}
 }
